@@ -449,13 +449,61 @@ def Frustum.DepthToZ_persp_3_10 {α : Type} [Add α] [Sub α] [Mul α] [Div α] 
 def Frustum.DepthToZ_ortho_3_10 {α : Type} [Add α] [Sub α] [Mul α] [Div α] [Neg α] [OfNat α 1] [OfNat α 2] [OfNat α 7] (n : α) (f : α) (l : α) (r : α) (t : α) (b : α) (depth : α) : (α × Int × Int × Int) :=
   (((((1 : α) / (2 : α)) * (((-((((2 : α) * depth) + f) + n)) / (f - n)) + (1 : α))) * (7 : α)), (3 : Int), (1 : Int), (0 : Int))
 
+/-- extracted from the C++ template at T = Sym; 7 path(s) -/
+def Frustum.DepthToZExc_persp_3_10 {α : Type} [Add α] [Sub α] [Mul α] [Div α] [Neg α] [LT α] [DecidableLT α] [OfNat α 0] [OfNat α 1] [OfNat α 2] [OfNat α 7] (tmax : α) (n : α) (f : α) (l : α) (r : α) (t : α) (b : α) (depth : α) : Except Exc (α × Int × Int × Int) :=
+  let t203 := (((2 : α) * f) * n)
+  let t204 := (f - n)
+  let t265 := (((t203 / depth) + f) + n)
+  let t270 := ((((1 : α) / (2 : α)) * ((t265 / t204) + (1 : α))) * (7 : α))
+  let t279 := (sabs depth)
+  let t281 := (tmax * t279)
+  let t282 := (sabs t203)
+  let t283 := (sabs t204)
+  let t284 := (tmax * t283)
+  let t285 := (sabs t265)
+  if t279 < (1 : α) then
+    if t281 < t282 then
+      .error Exc.domainError
+    else
+      if t283 < (1 : α) then
+        if t284 < t285 then
+          .error Exc.domainError
+        else
+          .ok ((t270, (3 : Int), (1 : Int), (0 : Int)))
+      else
+        .ok ((t270, (3 : Int), (1 : Int), (0 : Int)))
+  else
+    if t283 < (1 : α) then
+      if t284 < t285 then
+        .error Exc.domainError
+      else
+        .ok ((t270, (3 : Int), (1 : Int), (0 : Int)))
+    else
+      .ok ((t270, (3 : Int), (1 : Int), (0 : Int)))
+
+/-- extracted from the C++ template at T = Sym; 3 path(s) -/
+def Frustum.DepthToZExc_ortho_3_10 {α : Type} [Add α] [Sub α] [Mul α] [Div α] [Neg α] [LT α] [DecidableLT α] [OfNat α 0] [OfNat α 1] [OfNat α 2] [OfNat α 7] (tmax : α) (n : α) (f : α) (l : α) (r : α) (t : α) (b : α) (depth : α) : Except Exc (α × Int × Int × Int) :=
+  let t204 := (f - n)
+  let t273 := ((((2 : α) * depth) + f) + n)
+  let t278 := ((((1 : α) / (2 : α)) * (((-t273) / t204) + (1 : α))) * (7 : α))
+  let t283 := (sabs t204)
+  let t284 := (tmax * t283)
+  let t286 := (sabs t273)
+  if t283 < (1 : α) then
+    if t284 < t286 then
+      .error Exc.domainError
+    else
+      .ok ((t278, (3 : Int), (1 : Int), (0 : Int)))
+  else
+    .ok ((t278, (3 : Int), (1 : Int), (0 : Int)))
+
 /-- extracted from the C++ template at T = Sym; 1 path(s) -/
 def Frustum.projectionMatrix_persp {α : Type} [Add α] [Sub α] [Mul α] [Div α] [Neg α] [OfNat α 0] [OfNat α 1] [OfNat α 2] (n : α) (f : α) (l : α) (r : α) (t : α) (b : α) : (M44 α) :=
   let t41 := (r - l)
   let t42 := (t - b)
   let t204 := (f - n)
-  let t289 := ((2 : α) * n)
-  ⟨(t289 / t41), (0 : α), (0 : α), (0 : α), (0 : α), (t289 / t42), (0 : α), (0 : α), ((r + l) / t41), ((t + b) / t42), ((-(f + n)) / t204), (-(1 : α)), (0 : α), (0 : α), ((((-(2 : α)) * f) * n) / t204), (0 : α)⟩
+  let t297 := ((2 : α) * n)
+  ⟨(t297 / t41), (0 : α), (0 : α), (0 : α), (0 : α), (t297 / t42), (0 : α), (0 : α), ((r + l) / t41), ((t + b) / t42), ((-(f + n)) / t204), (-(1 : α)), (0 : α), (0 : α), ((((-(2 : α)) * f) * n) / t204), (0 : α)⟩
 
 /-- extracted from the C++ template at T = Sym; 1 path(s) -/
 def Frustum.screenToLocal_persp {α : Type} [Add α] [Sub α] [Mul α] [Div α] [OfNat α 1] [OfNat α 2] (n : α) (f : α) (l : α) (r : α) (t : α) (b : α) (s : V2 α) : (V2 α) :=
@@ -468,23 +516,23 @@ def Frustum.localToScreen_persp {α : Type} [Add α] [Sub α] [Mul α] [Div α] 
 /-- extracted from the C++ template at T = Sym; 2 path(s) -/
 def Frustum.projectScreenToRay_persp {α : Type} [Add α] [Sub α] [Mul α] [Div α] [Neg α] [LT α] [LE α] [DecidableLT α] [DecidableLE α] [DecidableEq α] [OfNat α 0] [OfNat α 1] [OfNat α 2] (tmin : α) (tmax : α) (sqrt : α → α) (n : α) (f : α) (l : α) (r : α) (t : α) (b : α) (s : V2 α) : (Line3 α) :=
   let t45 := ((-n) - (0 : α))
-  let t314 := ((b + (((t - b) * ((1 : α) + s.y)) / (2 : α))) - (0 : α))
-  let t315 := ((l + (((r - l) * ((1 : α) + s.x)) / (2 : α))) - (0 : α))
-  let t316 := (V3.length tmin tmax sqrt ⟨t315, t314, t45⟩)
-  if t316 = (0 : α) then
-    ⟨⟨(0 : α), (0 : α), (0 : α)⟩, ⟨t315, t314, t45⟩⟩
+  let t322 := ((b + (((t - b) * ((1 : α) + s.y)) / (2 : α))) - (0 : α))
+  let t323 := ((l + (((r - l) * ((1 : α) + s.x)) / (2 : α))) - (0 : α))
+  let t324 := (V3.length tmin tmax sqrt ⟨t323, t322, t45⟩)
+  if t324 = (0 : α) then
+    ⟨⟨(0 : α), (0 : α), (0 : α)⟩, ⟨t323, t322, t45⟩⟩
   else
-    ⟨⟨(0 : α), (0 : α), (0 : α)⟩, ⟨(t315 / t316), (t314 / t316), (t45 / t316)⟩⟩
+    ⟨⟨(0 : α), (0 : α), (0 : α)⟩, ⟨(t323 / t324), (t322 / t324), (t45 / t324)⟩⟩
 
 /-- extracted from the C++ template at T = Sym; 2 path(s) -/
 def Frustum.projectPointToScreen_persp {α : Type} [Add α] [Sub α] [Mul α] [Div α] [Neg α] [DecidableEq α] [OfNat α 0] [OfNat α 2] (n : α) (f : α) (l : α) (r : α) (t : α) (b : α) (p : V3 α) : (V2 α) :=
-  let t307 := (l - r)
-  let t311 := (b - t)
-  let t321 := (-p.z)
+  let t315 := (l - r)
+  let t319 := (b - t)
+  let t329 := (-p.z)
   if p.z = (0 : α) then
-    ⟨(((l - ((2 : α) * p.x)) + r) / t307), (((b - ((2 : α) * p.y)) + t) / t311)⟩
+    ⟨(((l - ((2 : α) * p.x)) + r) / t315), (((b - ((2 : α) * p.y)) + t) / t319)⟩
   else
-    ⟨(((l - ((2 : α) * ((p.x * n) / t321))) + r) / t307), (((b - ((2 : α) * ((p.y * n) / t321))) + t) / t311)⟩
+    ⟨(((l - ((2 : α) * ((p.x * n) / t329))) + r) / t315), (((b - ((2 : α) * ((p.y * n) / t329))) + t) / t319)⟩
 
 /-- extracted from the C++ template at T = Sym; 1 path(s) -/
 def Frustum.normalizedZToDepth_persp {α : Type} [Sub α] [Mul α] [Div α] [OfNat α 1] [OfNat α 2] (n : α) (f : α) (l : α) (r : α) (t : α) (b : α) (zval : α) : α :=
@@ -515,16 +563,16 @@ def Frustum.localToScreen_ortho {α : Type} [Add α] [Sub α] [Mul α] [Div α] 
 
 /-- extracted from the C++ template at T = Sym; 2 path(s) -/
 def Frustum.projectScreenToRay_ortho {α : Type} [Add α] [Sub α] [Mul α] [Div α] [Neg α] [LT α] [LE α] [DecidableLT α] [DecidableLE α] [DecidableEq α] [OfNat α 0] [OfNat α 1] [OfNat α 2] (tmin : α) (tmax : α) (sqrt : α → α) (n : α) (f : α) (l : α) (r : α) (t : α) (b : α) (s : V2 α) : (Line3 α) :=
-  let t297 := (b + (((t - b) * ((1 : α) + s.y)) / (2 : α)))
-  let t301 := (l + (((r - l) * ((1 : α) + s.x)) / (2 : α)))
-  let t353 := ((-(1 : α)) - (0 : α))
-  let t354 := (t297 - t297)
-  let t355 := (t301 - t301)
-  let t356 := (V3.length tmin tmax sqrt ⟨t355, t354, t353⟩)
-  if t356 = (0 : α) then
-    ⟨⟨t301, t297, (0 : α)⟩, ⟨t355, t354, t353⟩⟩
+  let t305 := (b + (((t - b) * ((1 : α) + s.y)) / (2 : α)))
+  let t309 := (l + (((r - l) * ((1 : α) + s.x)) / (2 : α)))
+  let t361 := ((-(1 : α)) - (0 : α))
+  let t362 := (t305 - t305)
+  let t363 := (t309 - t309)
+  let t364 := (V3.length tmin tmax sqrt ⟨t363, t362, t361⟩)
+  if t364 = (0 : α) then
+    ⟨⟨t309, t305, (0 : α)⟩, ⟨t363, t362, t361⟩⟩
   else
-    ⟨⟨t301, t297, (0 : α)⟩, ⟨(t355 / t356), (t354 / t356), (t353 / t356)⟩⟩
+    ⟨⟨t309, t305, (0 : α)⟩, ⟨(t363 / t364), (t362 / t364), (t361 / t364)⟩⟩
 
 /-- extracted from the C++ template at T = Sym; 1 path(s) -/
 def Frustum.projectPointToScreen_ortho {α : Type} [Add α] [Sub α] [Mul α] [Div α] [OfNat α 2] (n : α) (f : α) (l : α) (r : α) (t : α) (b : α) (p : V3 α) : (V2 α) :=
@@ -544,8 +592,8 @@ def Frustum.worldRadius_ortho {α : Type} [Mul α] [Div α] [Neg α] (n : α) (f
 
 /-- extracted from the C++ template at T = Sym; 1 path(s) -/
 def Frustum.V3mulM44 {α : Type} [Add α] [Mul α] [Div α] (v : V3 α) (m : M44 α) : (V3 α) :=
-  let t405 := ((((v.x * m.x03) + (v.y * m.x13)) + (v.z * m.x23)) + m.x33)
-  ⟨(((((v.x * m.x00) + (v.y * m.x10)) + (v.z * m.x20)) + m.x30) / t405), (((((v.x * m.x01) + (v.y * m.x11)) + (v.z * m.x21)) + m.x31) / t405), (((((v.x * m.x02) + (v.y * m.x12)) + (v.z * m.x22)) + m.x32) / t405)⟩
+  let t413 := ((((v.x * m.x03) + (v.y * m.x13)) + (v.z * m.x23)) + m.x33)
+  ⟨(((((v.x * m.x00) + (v.y * m.x10)) + (v.z * m.x20)) + m.x30) / t413), (((((v.x * m.x01) + (v.y * m.x11)) + (v.z * m.x21)) + m.x31) / t413), (((((v.x * m.x02) + (v.y * m.x12)) + (v.z * m.x22)) + m.x32) / t413)⟩
 
 /-- extracted from the C++ template at T = Sym; 64 path(s) -/
 def Frustum.planes_persp {α : Type} [Add α] [Sub α] [Mul α] [Div α] [Neg α] [LT α] [LE α] [DecidableLT α] [DecidableLE α] [DecidableEq α] [OfNat α 0] [OfNat α 1] [OfNat α 2] (tmin : α) (tmax : α) (sqrt : α → α) (n : α) (f : α) (l : α) (r : α) (t : α) (b : α) : ((Plane3 α) × (Plane3 α) × (Plane3 α) × (Plane3 α) × (Plane3 α) × (Plane3 α)) :=
@@ -558,247 +606,247 @@ def Frustum.planes_persp {α : Type} [Add α] [Sub α] [Mul α] [Div α] [Neg α
   let t53 := (V3.length tmin tmax sqrt ⟨(0 : α), (0 : α), (-(1 : α))⟩)
   let t83 := ((0 : α) / t53)
   let t84 := ((-(1 : α)) / t53)
-  let t409 := (t49 * t47)
-  let t410 := (t50 * t49)
-  let t411 := (t410 - t409)
-  let t412 := (t50 * t45)
-  let t413 := (t45 * t47)
-  let t414 := (t413 - t412)
-  let t415 := (t45 * t49)
-  let t416 := (t49 * t45)
-  let t417 := (t416 - t415)
-  let t418 := (V3.length tmin tmax sqrt ⟨t417, t414, t411⟩)
-  let t423 := (((t417 * (0 : α)) + (t414 * (0 : α))) + (t411 * (0 : α)))
-  let t424 := (t46 * t50)
-  let t425 := (t410 - t424)
-  let t426 := (t45 * t50)
-  let t427 := (t426 - t412)
-  let t428 := (t46 * t45)
-  let t429 := (t428 - t415)
-  let t430 := (V3.length tmin tmax sqrt ⟨t429, t427, t425⟩)
-  let t435 := (((t429 * (0 : α)) + (t427 * (0 : α))) + (t425 * (0 : α)))
-  let t436 := (t47 * t46)
-  let t437 := (t436 - t424)
-  let t438 := (t47 * t45)
-  let t439 := (t426 - t438)
-  let t440 := (t45 * t46)
-  let t441 := (t428 - t440)
-  let t442 := (V3.length tmin tmax sqrt ⟨t441, t439, t437⟩)
-  let t447 := (((t441 * (0 : α)) + (t439 * (0 : α))) + (t437 * (0 : α)))
-  let t448 := (t436 - t409)
-  let t449 := (t413 - t438)
-  let t450 := (t416 - t440)
-  let t451 := (V3.length tmin tmax sqrt ⟨t450, t449, t448⟩)
-  let t456 := (((t450 * (0 : α)) + (t449 * (0 : α))) + (t448 * (0 : α)))
-  let t457 := (V3.length tmin tmax sqrt ⟨(0 : α), (0 : α), (1 : α)⟩)
-  let t458 := ((0 : α) / t457)
-  let t459 := ((1 : α) / t457)
-  let t460 := (t450 / t451)
-  let t461 := (t449 / t451)
-  let t462 := (t448 / t451)
-  let t467 := (((t460 * (0 : α)) + (t461 * (0 : α))) + (t462 * (0 : α)))
-  let t468 := (t441 / t442)
-  let t469 := (t439 / t442)
-  let t470 := (t437 / t442)
+  let t417 := (t49 * t47)
+  let t418 := (t50 * t49)
+  let t419 := (t418 - t417)
+  let t420 := (t50 * t45)
+  let t421 := (t45 * t47)
+  let t422 := (t421 - t420)
+  let t423 := (t45 * t49)
+  let t424 := (t49 * t45)
+  let t425 := (t424 - t423)
+  let t426 := (V3.length tmin tmax sqrt ⟨t425, t422, t419⟩)
+  let t431 := (((t425 * (0 : α)) + (t422 * (0 : α))) + (t419 * (0 : α)))
+  let t432 := (t46 * t50)
+  let t433 := (t418 - t432)
+  let t434 := (t45 * t50)
+  let t435 := (t434 - t420)
+  let t436 := (t46 * t45)
+  let t437 := (t436 - t423)
+  let t438 := (V3.length tmin tmax sqrt ⟨t437, t435, t433⟩)
+  let t443 := (((t437 * (0 : α)) + (t435 * (0 : α))) + (t433 * (0 : α)))
+  let t444 := (t47 * t46)
+  let t445 := (t444 - t432)
+  let t446 := (t47 * t45)
+  let t447 := (t434 - t446)
+  let t448 := (t45 * t46)
+  let t449 := (t436 - t448)
+  let t450 := (V3.length tmin tmax sqrt ⟨t449, t447, t445⟩)
+  let t455 := (((t449 * (0 : α)) + (t447 * (0 : α))) + (t445 * (0 : α)))
+  let t456 := (t444 - t417)
+  let t457 := (t421 - t446)
+  let t458 := (t424 - t448)
+  let t459 := (V3.length tmin tmax sqrt ⟨t458, t457, t456⟩)
+  let t464 := (((t458 * (0 : α)) + (t457 * (0 : α))) + (t456 * (0 : α)))
+  let t465 := (V3.length tmin tmax sqrt ⟨(0 : α), (0 : α), (1 : α)⟩)
+  let t466 := ((0 : α) / t465)
+  let t467 := ((1 : α) / t465)
+  let t468 := (t458 / t459)
+  let t469 := (t457 / t459)
+  let t470 := (t456 / t459)
   let t475 := (((t468 * (0 : α)) + (t469 * (0 : α))) + (t470 * (0 : α)))
-  let t476 := (t429 / t430)
-  let t477 := (t427 / t430)
-  let t478 := (t425 / t430)
+  let t476 := (t449 / t450)
+  let t477 := (t447 / t450)
+  let t478 := (t445 / t450)
   let t483 := (((t476 * (0 : α)) + (t477 * (0 : α))) + (t478 * (0 : α)))
-  let t484 := (t417 / t418)
-  let t485 := (t414 / t418)
-  let t486 := (t411 / t418)
+  let t484 := (t437 / t438)
+  let t485 := (t435 / t438)
+  let t486 := (t433 / t438)
   let t491 := (((t484 * (0 : α)) + (t485 * (0 : α))) + (t486 * (0 : α)))
-  if t418 = (0 : α) then
-    if t430 = (0 : α) then
-      if t442 = (0 : α) then
-        if t451 = (0 : α) then
-          if t457 = (0 : α) then
+  let t492 := (t425 / t426)
+  let t493 := (t422 / t426)
+  let t494 := (t419 / t426)
+  let t499 := (((t492 * (0 : α)) + (t493 * (0 : α))) + (t494 * (0 : α)))
+  if t426 = (0 : α) then
+    if t438 = (0 : α) then
+      if t450 = (0 : α) then
+        if t459 = (0 : α) then
+          if t465 = (0 : α) then
             if t53 = (0 : α) then
-              (⟨⟨t417, t414, t411⟩, t423⟩, ⟨⟨t429, t427, t425⟩, t435⟩, ⟨⟨t441, t439, t437⟩, t447⟩, ⟨⟨t450, t449, t448⟩, t456⟩, ⟨⟨(0 : α), (0 : α), (1 : α)⟩, t44⟩, ⟨⟨(0 : α), (0 : α), (-(1 : α))⟩, f⟩)
+              (⟨⟨t425, t422, t419⟩, t431⟩, ⟨⟨t437, t435, t433⟩, t443⟩, ⟨⟨t449, t447, t445⟩, t455⟩, ⟨⟨t458, t457, t456⟩, t464⟩, ⟨⟨(0 : α), (0 : α), (1 : α)⟩, t44⟩, ⟨⟨(0 : α), (0 : α), (-(1 : α))⟩, f⟩)
             else
-              (⟨⟨t417, t414, t411⟩, t423⟩, ⟨⟨t429, t427, t425⟩, t435⟩, ⟨⟨t441, t439, t437⟩, t447⟩, ⟨⟨t450, t449, t448⟩, t456⟩, ⟨⟨(0 : α), (0 : α), (1 : α)⟩, t44⟩, ⟨⟨t83, t83, t84⟩, f⟩)
+              (⟨⟨t425, t422, t419⟩, t431⟩, ⟨⟨t437, t435, t433⟩, t443⟩, ⟨⟨t449, t447, t445⟩, t455⟩, ⟨⟨t458, t457, t456⟩, t464⟩, ⟨⟨(0 : α), (0 : α), (1 : α)⟩, t44⟩, ⟨⟨t83, t83, t84⟩, f⟩)
           else
             if t53 = (0 : α) then
-              (⟨⟨t417, t414, t411⟩, t423⟩, ⟨⟨t429, t427, t425⟩, t435⟩, ⟨⟨t441, t439, t437⟩, t447⟩, ⟨⟨t450, t449, t448⟩, t456⟩, ⟨⟨t458, t458, t459⟩, t44⟩, ⟨⟨(0 : α), (0 : α), (-(1 : α))⟩, f⟩)
+              (⟨⟨t425, t422, t419⟩, t431⟩, ⟨⟨t437, t435, t433⟩, t443⟩, ⟨⟨t449, t447, t445⟩, t455⟩, ⟨⟨t458, t457, t456⟩, t464⟩, ⟨⟨t466, t466, t467⟩, t44⟩, ⟨⟨(0 : α), (0 : α), (-(1 : α))⟩, f⟩)
             else
-              (⟨⟨t417, t414, t411⟩, t423⟩, ⟨⟨t429, t427, t425⟩, t435⟩, ⟨⟨t441, t439, t437⟩, t447⟩, ⟨⟨t450, t449, t448⟩, t456⟩, ⟨⟨t458, t458, t459⟩, t44⟩, ⟨⟨t83, t83, t84⟩, f⟩)
+              (⟨⟨t425, t422, t419⟩, t431⟩, ⟨⟨t437, t435, t433⟩, t443⟩, ⟨⟨t449, t447, t445⟩, t455⟩, ⟨⟨t458, t457, t456⟩, t464⟩, ⟨⟨t466, t466, t467⟩, t44⟩, ⟨⟨t83, t83, t84⟩, f⟩)
         else
-          if t457 = (0 : α) then
+          if t465 = (0 : α) then
             if t53 = (0 : α) then
-              (⟨⟨t417, t414, t411⟩, t423⟩, ⟨⟨t429, t427, t425⟩, t435⟩, ⟨⟨t441, t439, t437⟩, t447⟩, ⟨⟨t460, t461, t462⟩, t467⟩, ⟨⟨(0 : α), (0 : α), (1 : α)⟩, t44⟩, ⟨⟨(0 : α), (0 : α), (-(1 : α))⟩, f⟩)
+              (⟨⟨t425, t422, t419⟩, t431⟩, ⟨⟨t437, t435, t433⟩, t443⟩, ⟨⟨t449, t447, t445⟩, t455⟩, ⟨⟨t468, t469, t470⟩, t475⟩, ⟨⟨(0 : α), (0 : α), (1 : α)⟩, t44⟩, ⟨⟨(0 : α), (0 : α), (-(1 : α))⟩, f⟩)
             else
-              (⟨⟨t417, t414, t411⟩, t423⟩, ⟨⟨t429, t427, t425⟩, t435⟩, ⟨⟨t441, t439, t437⟩, t447⟩, ⟨⟨t460, t461, t462⟩, t467⟩, ⟨⟨(0 : α), (0 : α), (1 : α)⟩, t44⟩, ⟨⟨t83, t83, t84⟩, f⟩)
+              (⟨⟨t425, t422, t419⟩, t431⟩, ⟨⟨t437, t435, t433⟩, t443⟩, ⟨⟨t449, t447, t445⟩, t455⟩, ⟨⟨t468, t469, t470⟩, t475⟩, ⟨⟨(0 : α), (0 : α), (1 : α)⟩, t44⟩, ⟨⟨t83, t83, t84⟩, f⟩)
           else
             if t53 = (0 : α) then
-              (⟨⟨t417, t414, t411⟩, t423⟩, ⟨⟨t429, t427, t425⟩, t435⟩, ⟨⟨t441, t439, t437⟩, t447⟩, ⟨⟨t460, t461, t462⟩, t467⟩, ⟨⟨t458, t458, t459⟩, t44⟩, ⟨⟨(0 : α), (0 : α), (-(1 : α))⟩, f⟩)
+              (⟨⟨t425, t422, t419⟩, t431⟩, ⟨⟨t437, t435, t433⟩, t443⟩, ⟨⟨t449, t447, t445⟩, t455⟩, ⟨⟨t468, t469, t470⟩, t475⟩, ⟨⟨t466, t466, t467⟩, t44⟩, ⟨⟨(0 : α), (0 : α), (-(1 : α))⟩, f⟩)
             else
-              (⟨⟨t417, t414, t411⟩, t423⟩, ⟨⟨t429, t427, t425⟩, t435⟩, ⟨⟨t441, t439, t437⟩, t447⟩, ⟨⟨t460, t461, t462⟩, t467⟩, ⟨⟨t458, t458, t459⟩, t44⟩, ⟨⟨t83, t83, t84⟩, f⟩)
+              (⟨⟨t425, t422, t419⟩, t431⟩, ⟨⟨t437, t435, t433⟩, t443⟩, ⟨⟨t449, t447, t445⟩, t455⟩, ⟨⟨t468, t469, t470⟩, t475⟩, ⟨⟨t466, t466, t467⟩, t44⟩, ⟨⟨t83, t83, t84⟩, f⟩)
       else
-        if t451 = (0 : α) then
-          if t457 = (0 : α) then
+        if t459 = (0 : α) then
+          if t465 = (0 : α) then
             if t53 = (0 : α) then
-              (⟨⟨t417, t414, t411⟩, t423⟩, ⟨⟨t429, t427, t425⟩, t435⟩, ⟨⟨t468, t469, t470⟩, t475⟩, ⟨⟨t450, t449, t448⟩, t456⟩, ⟨⟨(0 : α), (0 : α), (1 : α)⟩, t44⟩, ⟨⟨(0 : α), (0 : α), (-(1 : α))⟩, f⟩)
+              (⟨⟨t425, t422, t419⟩, t431⟩, ⟨⟨t437, t435, t433⟩, t443⟩, ⟨⟨t476, t477, t478⟩, t483⟩, ⟨⟨t458, t457, t456⟩, t464⟩, ⟨⟨(0 : α), (0 : α), (1 : α)⟩, t44⟩, ⟨⟨(0 : α), (0 : α), (-(1 : α))⟩, f⟩)
             else
-              (⟨⟨t417, t414, t411⟩, t423⟩, ⟨⟨t429, t427, t425⟩, t435⟩, ⟨⟨t468, t469, t470⟩, t475⟩, ⟨⟨t450, t449, t448⟩, t456⟩, ⟨⟨(0 : α), (0 : α), (1 : α)⟩, t44⟩, ⟨⟨t83, t83, t84⟩, f⟩)
+              (⟨⟨t425, t422, t419⟩, t431⟩, ⟨⟨t437, t435, t433⟩, t443⟩, ⟨⟨t476, t477, t478⟩, t483⟩, ⟨⟨t458, t457, t456⟩, t464⟩, ⟨⟨(0 : α), (0 : α), (1 : α)⟩, t44⟩, ⟨⟨t83, t83, t84⟩, f⟩)
           else
             if t53 = (0 : α) then
-              (⟨⟨t417, t414, t411⟩, t423⟩, ⟨⟨t429, t427, t425⟩, t435⟩, ⟨⟨t468, t469, t470⟩, t475⟩, ⟨⟨t450, t449, t448⟩, t456⟩, ⟨⟨t458, t458, t459⟩, t44⟩, ⟨⟨(0 : α), (0 : α), (-(1 : α))⟩, f⟩)
+              (⟨⟨t425, t422, t419⟩, t431⟩, ⟨⟨t437, t435, t433⟩, t443⟩, ⟨⟨t476, t477, t478⟩, t483⟩, ⟨⟨t458, t457, t456⟩, t464⟩, ⟨⟨t466, t466, t467⟩, t44⟩, ⟨⟨(0 : α), (0 : α), (-(1 : α))⟩, f⟩)
             else
-              (⟨⟨t417, t414, t411⟩, t423⟩, ⟨⟨t429, t427, t425⟩, t435⟩, ⟨⟨t468, t469, t470⟩, t475⟩, ⟨⟨t450, t449, t448⟩, t456⟩, ⟨⟨t458, t458, t459⟩, t44⟩, ⟨⟨t83, t83, t84⟩, f⟩)
+              (⟨⟨t425, t422, t419⟩, t431⟩, ⟨⟨t437, t435, t433⟩, t443⟩, ⟨⟨t476, t477, t478⟩, t483⟩, ⟨⟨t458, t457, t456⟩, t464⟩, ⟨⟨t466, t466, t467⟩, t44⟩, ⟨⟨t83, t83, t84⟩, f⟩)
         else
-          if t457 = (0 : α) then
+          if t465 = (0 : α) then
             if t53 = (0 : α) then
-              (⟨⟨t417, t414, t411⟩, t423⟩, ⟨⟨t429, t427, t425⟩, t435⟩, ⟨⟨t468, t469, t470⟩, t475⟩, ⟨⟨t460, t461, t462⟩, t467⟩, ⟨⟨(0 : α), (0 : α), (1 : α)⟩, t44⟩, ⟨⟨(0 : α), (0 : α), (-(1 : α))⟩, f⟩)
+              (⟨⟨t425, t422, t419⟩, t431⟩, ⟨⟨t437, t435, t433⟩, t443⟩, ⟨⟨t476, t477, t478⟩, t483⟩, ⟨⟨t468, t469, t470⟩, t475⟩, ⟨⟨(0 : α), (0 : α), (1 : α)⟩, t44⟩, ⟨⟨(0 : α), (0 : α), (-(1 : α))⟩, f⟩)
             else
-              (⟨⟨t417, t414, t411⟩, t423⟩, ⟨⟨t429, t427, t425⟩, t435⟩, ⟨⟨t468, t469, t470⟩, t475⟩, ⟨⟨t460, t461, t462⟩, t467⟩, ⟨⟨(0 : α), (0 : α), (1 : α)⟩, t44⟩, ⟨⟨t83, t83, t84⟩, f⟩)
+              (⟨⟨t425, t422, t419⟩, t431⟩, ⟨⟨t437, t435, t433⟩, t443⟩, ⟨⟨t476, t477, t478⟩, t483⟩, ⟨⟨t468, t469, t470⟩, t475⟩, ⟨⟨(0 : α), (0 : α), (1 : α)⟩, t44⟩, ⟨⟨t83, t83, t84⟩, f⟩)
           else
             if t53 = (0 : α) then
-              (⟨⟨t417, t414, t411⟩, t423⟩, ⟨⟨t429, t427, t425⟩, t435⟩, ⟨⟨t468, t469, t470⟩, t475⟩, ⟨⟨t460, t461, t462⟩, t467⟩, ⟨⟨t458, t458, t459⟩, t44⟩, ⟨⟨(0 : α), (0 : α), (-(1 : α))⟩, f⟩)
+              (⟨⟨t425, t422, t419⟩, t431⟩, ⟨⟨t437, t435, t433⟩, t443⟩, ⟨⟨t476, t477, t478⟩, t483⟩, ⟨⟨t468, t469, t470⟩, t475⟩, ⟨⟨t466, t466, t467⟩, t44⟩, ⟨⟨(0 : α), (0 : α), (-(1 : α))⟩, f⟩)
             else
-              (⟨⟨t417, t414, t411⟩, t423⟩, ⟨⟨t429, t427, t425⟩, t435⟩, ⟨⟨t468, t469, t470⟩, t475⟩, ⟨⟨t460, t461, t462⟩, t467⟩, ⟨⟨t458, t458, t459⟩, t44⟩, ⟨⟨t83, t83, t84⟩, f⟩)
+              (⟨⟨t425, t422, t419⟩, t431⟩, ⟨⟨t437, t435, t433⟩, t443⟩, ⟨⟨t476, t477, t478⟩, t483⟩, ⟨⟨t468, t469, t470⟩, t475⟩, ⟨⟨t466, t466, t467⟩, t44⟩, ⟨⟨t83, t83, t84⟩, f⟩)
     else
-      if t442 = (0 : α) then
-        if t451 = (0 : α) then
-          if t457 = (0 : α) then
+      if t450 = (0 : α) then
+        if t459 = (0 : α) then
+          if t465 = (0 : α) then
             if t53 = (0 : α) then
-              (⟨⟨t417, t414, t411⟩, t423⟩, ⟨⟨t476, t477, t478⟩, t483⟩, ⟨⟨t441, t439, t437⟩, t447⟩, ⟨⟨t450, t449, t448⟩, t456⟩, ⟨⟨(0 : α), (0 : α), (1 : α)⟩, t44⟩, ⟨⟨(0 : α), (0 : α), (-(1 : α))⟩, f⟩)
+              (⟨⟨t425, t422, t419⟩, t431⟩, ⟨⟨t484, t485, t486⟩, t491⟩, ⟨⟨t449, t447, t445⟩, t455⟩, ⟨⟨t458, t457, t456⟩, t464⟩, ⟨⟨(0 : α), (0 : α), (1 : α)⟩, t44⟩, ⟨⟨(0 : α), (0 : α), (-(1 : α))⟩, f⟩)
             else
-              (⟨⟨t417, t414, t411⟩, t423⟩, ⟨⟨t476, t477, t478⟩, t483⟩, ⟨⟨t441, t439, t437⟩, t447⟩, ⟨⟨t450, t449, t448⟩, t456⟩, ⟨⟨(0 : α), (0 : α), (1 : α)⟩, t44⟩, ⟨⟨t83, t83, t84⟩, f⟩)
+              (⟨⟨t425, t422, t419⟩, t431⟩, ⟨⟨t484, t485, t486⟩, t491⟩, ⟨⟨t449, t447, t445⟩, t455⟩, ⟨⟨t458, t457, t456⟩, t464⟩, ⟨⟨(0 : α), (0 : α), (1 : α)⟩, t44⟩, ⟨⟨t83, t83, t84⟩, f⟩)
           else
             if t53 = (0 : α) then
-              (⟨⟨t417, t414, t411⟩, t423⟩, ⟨⟨t476, t477, t478⟩, t483⟩, ⟨⟨t441, t439, t437⟩, t447⟩, ⟨⟨t450, t449, t448⟩, t456⟩, ⟨⟨t458, t458, t459⟩, t44⟩, ⟨⟨(0 : α), (0 : α), (-(1 : α))⟩, f⟩)
+              (⟨⟨t425, t422, t419⟩, t431⟩, ⟨⟨t484, t485, t486⟩, t491⟩, ⟨⟨t449, t447, t445⟩, t455⟩, ⟨⟨t458, t457, t456⟩, t464⟩, ⟨⟨t466, t466, t467⟩, t44⟩, ⟨⟨(0 : α), (0 : α), (-(1 : α))⟩, f⟩)
             else
-              (⟨⟨t417, t414, t411⟩, t423⟩, ⟨⟨t476, t477, t478⟩, t483⟩, ⟨⟨t441, t439, t437⟩, t447⟩, ⟨⟨t450, t449, t448⟩, t456⟩, ⟨⟨t458, t458, t459⟩, t44⟩, ⟨⟨t83, t83, t84⟩, f⟩)
+              (⟨⟨t425, t422, t419⟩, t431⟩, ⟨⟨t484, t485, t486⟩, t491⟩, ⟨⟨t449, t447, t445⟩, t455⟩, ⟨⟨t458, t457, t456⟩, t464⟩, ⟨⟨t466, t466, t467⟩, t44⟩, ⟨⟨t83, t83, t84⟩, f⟩)
         else
-          if t457 = (0 : α) then
+          if t465 = (0 : α) then
             if t53 = (0 : α) then
-              (⟨⟨t417, t414, t411⟩, t423⟩, ⟨⟨t476, t477, t478⟩, t483⟩, ⟨⟨t441, t439, t437⟩, t447⟩, ⟨⟨t460, t461, t462⟩, t467⟩, ⟨⟨(0 : α), (0 : α), (1 : α)⟩, t44⟩, ⟨⟨(0 : α), (0 : α), (-(1 : α))⟩, f⟩)
+              (⟨⟨t425, t422, t419⟩, t431⟩, ⟨⟨t484, t485, t486⟩, t491⟩, ⟨⟨t449, t447, t445⟩, t455⟩, ⟨⟨t468, t469, t470⟩, t475⟩, ⟨⟨(0 : α), (0 : α), (1 : α)⟩, t44⟩, ⟨⟨(0 : α), (0 : α), (-(1 : α))⟩, f⟩)
             else
-              (⟨⟨t417, t414, t411⟩, t423⟩, ⟨⟨t476, t477, t478⟩, t483⟩, ⟨⟨t441, t439, t437⟩, t447⟩, ⟨⟨t460, t461, t462⟩, t467⟩, ⟨⟨(0 : α), (0 : α), (1 : α)⟩, t44⟩, ⟨⟨t83, t83, t84⟩, f⟩)
+              (⟨⟨t425, t422, t419⟩, t431⟩, ⟨⟨t484, t485, t486⟩, t491⟩, ⟨⟨t449, t447, t445⟩, t455⟩, ⟨⟨t468, t469, t470⟩, t475⟩, ⟨⟨(0 : α), (0 : α), (1 : α)⟩, t44⟩, ⟨⟨t83, t83, t84⟩, f⟩)
           else
             if t53 = (0 : α) then
-              (⟨⟨t417, t414, t411⟩, t423⟩, ⟨⟨t476, t477, t478⟩, t483⟩, ⟨⟨t441, t439, t437⟩, t447⟩, ⟨⟨t460, t461, t462⟩, t467⟩, ⟨⟨t458, t458, t459⟩, t44⟩, ⟨⟨(0 : α), (0 : α), (-(1 : α))⟩, f⟩)
+              (⟨⟨t425, t422, t419⟩, t431⟩, ⟨⟨t484, t485, t486⟩, t491⟩, ⟨⟨t449, t447, t445⟩, t455⟩, ⟨⟨t468, t469, t470⟩, t475⟩, ⟨⟨t466, t466, t467⟩, t44⟩, ⟨⟨(0 : α), (0 : α), (-(1 : α))⟩, f⟩)
             else
-              (⟨⟨t417, t414, t411⟩, t423⟩, ⟨⟨t476, t477, t478⟩, t483⟩, ⟨⟨t441, t439, t437⟩, t447⟩, ⟨⟨t460, t461, t462⟩, t467⟩, ⟨⟨t458, t458, t459⟩, t44⟩, ⟨⟨t83, t83, t84⟩, f⟩)
+              (⟨⟨t425, t422, t419⟩, t431⟩, ⟨⟨t484, t485, t486⟩, t491⟩, ⟨⟨t449, t447, t445⟩, t455⟩, ⟨⟨t468, t469, t470⟩, t475⟩, ⟨⟨t466, t466, t467⟩, t44⟩, ⟨⟨t83, t83, t84⟩, f⟩)
       else
-        if t451 = (0 : α) then
-          if t457 = (0 : α) then
+        if t459 = (0 : α) then
+          if t465 = (0 : α) then
             if t53 = (0 : α) then
-              (⟨⟨t417, t414, t411⟩, t423⟩, ⟨⟨t476, t477, t478⟩, t483⟩, ⟨⟨t468, t469, t470⟩, t475⟩, ⟨⟨t450, t449, t448⟩, t456⟩, ⟨⟨(0 : α), (0 : α), (1 : α)⟩, t44⟩, ⟨⟨(0 : α), (0 : α), (-(1 : α))⟩, f⟩)
+              (⟨⟨t425, t422, t419⟩, t431⟩, ⟨⟨t484, t485, t486⟩, t491⟩, ⟨⟨t476, t477, t478⟩, t483⟩, ⟨⟨t458, t457, t456⟩, t464⟩, ⟨⟨(0 : α), (0 : α), (1 : α)⟩, t44⟩, ⟨⟨(0 : α), (0 : α), (-(1 : α))⟩, f⟩)
             else
-              (⟨⟨t417, t414, t411⟩, t423⟩, ⟨⟨t476, t477, t478⟩, t483⟩, ⟨⟨t468, t469, t470⟩, t475⟩, ⟨⟨t450, t449, t448⟩, t456⟩, ⟨⟨(0 : α), (0 : α), (1 : α)⟩, t44⟩, ⟨⟨t83, t83, t84⟩, f⟩)
+              (⟨⟨t425, t422, t419⟩, t431⟩, ⟨⟨t484, t485, t486⟩, t491⟩, ⟨⟨t476, t477, t478⟩, t483⟩, ⟨⟨t458, t457, t456⟩, t464⟩, ⟨⟨(0 : α), (0 : α), (1 : α)⟩, t44⟩, ⟨⟨t83, t83, t84⟩, f⟩)
           else
             if t53 = (0 : α) then
-              (⟨⟨t417, t414, t411⟩, t423⟩, ⟨⟨t476, t477, t478⟩, t483⟩, ⟨⟨t468, t469, t470⟩, t475⟩, ⟨⟨t450, t449, t448⟩, t456⟩, ⟨⟨t458, t458, t459⟩, t44⟩, ⟨⟨(0 : α), (0 : α), (-(1 : α))⟩, f⟩)
+              (⟨⟨t425, t422, t419⟩, t431⟩, ⟨⟨t484, t485, t486⟩, t491⟩, ⟨⟨t476, t477, t478⟩, t483⟩, ⟨⟨t458, t457, t456⟩, t464⟩, ⟨⟨t466, t466, t467⟩, t44⟩, ⟨⟨(0 : α), (0 : α), (-(1 : α))⟩, f⟩)
             else
-              (⟨⟨t417, t414, t411⟩, t423⟩, ⟨⟨t476, t477, t478⟩, t483⟩, ⟨⟨t468, t469, t470⟩, t475⟩, ⟨⟨t450, t449, t448⟩, t456⟩, ⟨⟨t458, t458, t459⟩, t44⟩, ⟨⟨t83, t83, t84⟩, f⟩)
+              (⟨⟨t425, t422, t419⟩, t431⟩, ⟨⟨t484, t485, t486⟩, t491⟩, ⟨⟨t476, t477, t478⟩, t483⟩, ⟨⟨t458, t457, t456⟩, t464⟩, ⟨⟨t466, t466, t467⟩, t44⟩, ⟨⟨t83, t83, t84⟩, f⟩)
         else
-          if t457 = (0 : α) then
+          if t465 = (0 : α) then
             if t53 = (0 : α) then
-              (⟨⟨t417, t414, t411⟩, t423⟩, ⟨⟨t476, t477, t478⟩, t483⟩, ⟨⟨t468, t469, t470⟩, t475⟩, ⟨⟨t460, t461, t462⟩, t467⟩, ⟨⟨(0 : α), (0 : α), (1 : α)⟩, t44⟩, ⟨⟨(0 : α), (0 : α), (-(1 : α))⟩, f⟩)
+              (⟨⟨t425, t422, t419⟩, t431⟩, ⟨⟨t484, t485, t486⟩, t491⟩, ⟨⟨t476, t477, t478⟩, t483⟩, ⟨⟨t468, t469, t470⟩, t475⟩, ⟨⟨(0 : α), (0 : α), (1 : α)⟩, t44⟩, ⟨⟨(0 : α), (0 : α), (-(1 : α))⟩, f⟩)
             else
-              (⟨⟨t417, t414, t411⟩, t423⟩, ⟨⟨t476, t477, t478⟩, t483⟩, ⟨⟨t468, t469, t470⟩, t475⟩, ⟨⟨t460, t461, t462⟩, t467⟩, ⟨⟨(0 : α), (0 : α), (1 : α)⟩, t44⟩, ⟨⟨t83, t83, t84⟩, f⟩)
+              (⟨⟨t425, t422, t419⟩, t431⟩, ⟨⟨t484, t485, t486⟩, t491⟩, ⟨⟨t476, t477, t478⟩, t483⟩, ⟨⟨t468, t469, t470⟩, t475⟩, ⟨⟨(0 : α), (0 : α), (1 : α)⟩, t44⟩, ⟨⟨t83, t83, t84⟩, f⟩)
           else
             if t53 = (0 : α) then
-              (⟨⟨t417, t414, t411⟩, t423⟩, ⟨⟨t476, t477, t478⟩, t483⟩, ⟨⟨t468, t469, t470⟩, t475⟩, ⟨⟨t460, t461, t462⟩, t467⟩, ⟨⟨t458, t458, t459⟩, t44⟩, ⟨⟨(0 : α), (0 : α), (-(1 : α))⟩, f⟩)
+              (⟨⟨t425, t422, t419⟩, t431⟩, ⟨⟨t484, t485, t486⟩, t491⟩, ⟨⟨t476, t477, t478⟩, t483⟩, ⟨⟨t468, t469, t470⟩, t475⟩, ⟨⟨t466, t466, t467⟩, t44⟩, ⟨⟨(0 : α), (0 : α), (-(1 : α))⟩, f⟩)
             else
-              (⟨⟨t417, t414, t411⟩, t423⟩, ⟨⟨t476, t477, t478⟩, t483⟩, ⟨⟨t468, t469, t470⟩, t475⟩, ⟨⟨t460, t461, t462⟩, t467⟩, ⟨⟨t458, t458, t459⟩, t44⟩, ⟨⟨t83, t83, t84⟩, f⟩)
+              (⟨⟨t425, t422, t419⟩, t431⟩, ⟨⟨t484, t485, t486⟩, t491⟩, ⟨⟨t476, t477, t478⟩, t483⟩, ⟨⟨t468, t469, t470⟩, t475⟩, ⟨⟨t466, t466, t467⟩, t44⟩, ⟨⟨t83, t83, t84⟩, f⟩)
   else
-    if t430 = (0 : α) then
-      if t442 = (0 : α) then
-        if t451 = (0 : α) then
-          if t457 = (0 : α) then
+    if t438 = (0 : α) then
+      if t450 = (0 : α) then
+        if t459 = (0 : α) then
+          if t465 = (0 : α) then
             if t53 = (0 : α) then
-              (⟨⟨t484, t485, t486⟩, t491⟩, ⟨⟨t429, t427, t425⟩, t435⟩, ⟨⟨t441, t439, t437⟩, t447⟩, ⟨⟨t450, t449, t448⟩, t456⟩, ⟨⟨(0 : α), (0 : α), (1 : α)⟩, t44⟩, ⟨⟨(0 : α), (0 : α), (-(1 : α))⟩, f⟩)
+              (⟨⟨t492, t493, t494⟩, t499⟩, ⟨⟨t437, t435, t433⟩, t443⟩, ⟨⟨t449, t447, t445⟩, t455⟩, ⟨⟨t458, t457, t456⟩, t464⟩, ⟨⟨(0 : α), (0 : α), (1 : α)⟩, t44⟩, ⟨⟨(0 : α), (0 : α), (-(1 : α))⟩, f⟩)
             else
-              (⟨⟨t484, t485, t486⟩, t491⟩, ⟨⟨t429, t427, t425⟩, t435⟩, ⟨⟨t441, t439, t437⟩, t447⟩, ⟨⟨t450, t449, t448⟩, t456⟩, ⟨⟨(0 : α), (0 : α), (1 : α)⟩, t44⟩, ⟨⟨t83, t83, t84⟩, f⟩)
+              (⟨⟨t492, t493, t494⟩, t499⟩, ⟨⟨t437, t435, t433⟩, t443⟩, ⟨⟨t449, t447, t445⟩, t455⟩, ⟨⟨t458, t457, t456⟩, t464⟩, ⟨⟨(0 : α), (0 : α), (1 : α)⟩, t44⟩, ⟨⟨t83, t83, t84⟩, f⟩)
           else
             if t53 = (0 : α) then
-              (⟨⟨t484, t485, t486⟩, t491⟩, ⟨⟨t429, t427, t425⟩, t435⟩, ⟨⟨t441, t439, t437⟩, t447⟩, ⟨⟨t450, t449, t448⟩, t456⟩, ⟨⟨t458, t458, t459⟩, t44⟩, ⟨⟨(0 : α), (0 : α), (-(1 : α))⟩, f⟩)
+              (⟨⟨t492, t493, t494⟩, t499⟩, ⟨⟨t437, t435, t433⟩, t443⟩, ⟨⟨t449, t447, t445⟩, t455⟩, ⟨⟨t458, t457, t456⟩, t464⟩, ⟨⟨t466, t466, t467⟩, t44⟩, ⟨⟨(0 : α), (0 : α), (-(1 : α))⟩, f⟩)
             else
-              (⟨⟨t484, t485, t486⟩, t491⟩, ⟨⟨t429, t427, t425⟩, t435⟩, ⟨⟨t441, t439, t437⟩, t447⟩, ⟨⟨t450, t449, t448⟩, t456⟩, ⟨⟨t458, t458, t459⟩, t44⟩, ⟨⟨t83, t83, t84⟩, f⟩)
+              (⟨⟨t492, t493, t494⟩, t499⟩, ⟨⟨t437, t435, t433⟩, t443⟩, ⟨⟨t449, t447, t445⟩, t455⟩, ⟨⟨t458, t457, t456⟩, t464⟩, ⟨⟨t466, t466, t467⟩, t44⟩, ⟨⟨t83, t83, t84⟩, f⟩)
         else
-          if t457 = (0 : α) then
+          if t465 = (0 : α) then
             if t53 = (0 : α) then
-              (⟨⟨t484, t485, t486⟩, t491⟩, ⟨⟨t429, t427, t425⟩, t435⟩, ⟨⟨t441, t439, t437⟩, t447⟩, ⟨⟨t460, t461, t462⟩, t467⟩, ⟨⟨(0 : α), (0 : α), (1 : α)⟩, t44⟩, ⟨⟨(0 : α), (0 : α), (-(1 : α))⟩, f⟩)
+              (⟨⟨t492, t493, t494⟩, t499⟩, ⟨⟨t437, t435, t433⟩, t443⟩, ⟨⟨t449, t447, t445⟩, t455⟩, ⟨⟨t468, t469, t470⟩, t475⟩, ⟨⟨(0 : α), (0 : α), (1 : α)⟩, t44⟩, ⟨⟨(0 : α), (0 : α), (-(1 : α))⟩, f⟩)
             else
-              (⟨⟨t484, t485, t486⟩, t491⟩, ⟨⟨t429, t427, t425⟩, t435⟩, ⟨⟨t441, t439, t437⟩, t447⟩, ⟨⟨t460, t461, t462⟩, t467⟩, ⟨⟨(0 : α), (0 : α), (1 : α)⟩, t44⟩, ⟨⟨t83, t83, t84⟩, f⟩)
+              (⟨⟨t492, t493, t494⟩, t499⟩, ⟨⟨t437, t435, t433⟩, t443⟩, ⟨⟨t449, t447, t445⟩, t455⟩, ⟨⟨t468, t469, t470⟩, t475⟩, ⟨⟨(0 : α), (0 : α), (1 : α)⟩, t44⟩, ⟨⟨t83, t83, t84⟩, f⟩)
           else
             if t53 = (0 : α) then
-              (⟨⟨t484, t485, t486⟩, t491⟩, ⟨⟨t429, t427, t425⟩, t435⟩, ⟨⟨t441, t439, t437⟩, t447⟩, ⟨⟨t460, t461, t462⟩, t467⟩, ⟨⟨t458, t458, t459⟩, t44⟩, ⟨⟨(0 : α), (0 : α), (-(1 : α))⟩, f⟩)
+              (⟨⟨t492, t493, t494⟩, t499⟩, ⟨⟨t437, t435, t433⟩, t443⟩, ⟨⟨t449, t447, t445⟩, t455⟩, ⟨⟨t468, t469, t470⟩, t475⟩, ⟨⟨t466, t466, t467⟩, t44⟩, ⟨⟨(0 : α), (0 : α), (-(1 : α))⟩, f⟩)
             else
-              (⟨⟨t484, t485, t486⟩, t491⟩, ⟨⟨t429, t427, t425⟩, t435⟩, ⟨⟨t441, t439, t437⟩, t447⟩, ⟨⟨t460, t461, t462⟩, t467⟩, ⟨⟨t458, t458, t459⟩, t44⟩, ⟨⟨t83, t83, t84⟩, f⟩)
+              (⟨⟨t492, t493, t494⟩, t499⟩, ⟨⟨t437, t435, t433⟩, t443⟩, ⟨⟨t449, t447, t445⟩, t455⟩, ⟨⟨t468, t469, t470⟩, t475⟩, ⟨⟨t466, t466, t467⟩, t44⟩, ⟨⟨t83, t83, t84⟩, f⟩)
       else
-        if t451 = (0 : α) then
-          if t457 = (0 : α) then
+        if t459 = (0 : α) then
+          if t465 = (0 : α) then
             if t53 = (0 : α) then
-              (⟨⟨t484, t485, t486⟩, t491⟩, ⟨⟨t429, t427, t425⟩, t435⟩, ⟨⟨t468, t469, t470⟩, t475⟩, ⟨⟨t450, t449, t448⟩, t456⟩, ⟨⟨(0 : α), (0 : α), (1 : α)⟩, t44⟩, ⟨⟨(0 : α), (0 : α), (-(1 : α))⟩, f⟩)
+              (⟨⟨t492, t493, t494⟩, t499⟩, ⟨⟨t437, t435, t433⟩, t443⟩, ⟨⟨t476, t477, t478⟩, t483⟩, ⟨⟨t458, t457, t456⟩, t464⟩, ⟨⟨(0 : α), (0 : α), (1 : α)⟩, t44⟩, ⟨⟨(0 : α), (0 : α), (-(1 : α))⟩, f⟩)
             else
-              (⟨⟨t484, t485, t486⟩, t491⟩, ⟨⟨t429, t427, t425⟩, t435⟩, ⟨⟨t468, t469, t470⟩, t475⟩, ⟨⟨t450, t449, t448⟩, t456⟩, ⟨⟨(0 : α), (0 : α), (1 : α)⟩, t44⟩, ⟨⟨t83, t83, t84⟩, f⟩)
+              (⟨⟨t492, t493, t494⟩, t499⟩, ⟨⟨t437, t435, t433⟩, t443⟩, ⟨⟨t476, t477, t478⟩, t483⟩, ⟨⟨t458, t457, t456⟩, t464⟩, ⟨⟨(0 : α), (0 : α), (1 : α)⟩, t44⟩, ⟨⟨t83, t83, t84⟩, f⟩)
           else
             if t53 = (0 : α) then
-              (⟨⟨t484, t485, t486⟩, t491⟩, ⟨⟨t429, t427, t425⟩, t435⟩, ⟨⟨t468, t469, t470⟩, t475⟩, ⟨⟨t450, t449, t448⟩, t456⟩, ⟨⟨t458, t458, t459⟩, t44⟩, ⟨⟨(0 : α), (0 : α), (-(1 : α))⟩, f⟩)
+              (⟨⟨t492, t493, t494⟩, t499⟩, ⟨⟨t437, t435, t433⟩, t443⟩, ⟨⟨t476, t477, t478⟩, t483⟩, ⟨⟨t458, t457, t456⟩, t464⟩, ⟨⟨t466, t466, t467⟩, t44⟩, ⟨⟨(0 : α), (0 : α), (-(1 : α))⟩, f⟩)
             else
-              (⟨⟨t484, t485, t486⟩, t491⟩, ⟨⟨t429, t427, t425⟩, t435⟩, ⟨⟨t468, t469, t470⟩, t475⟩, ⟨⟨t450, t449, t448⟩, t456⟩, ⟨⟨t458, t458, t459⟩, t44⟩, ⟨⟨t83, t83, t84⟩, f⟩)
+              (⟨⟨t492, t493, t494⟩, t499⟩, ⟨⟨t437, t435, t433⟩, t443⟩, ⟨⟨t476, t477, t478⟩, t483⟩, ⟨⟨t458, t457, t456⟩, t464⟩, ⟨⟨t466, t466, t467⟩, t44⟩, ⟨⟨t83, t83, t84⟩, f⟩)
         else
-          if t457 = (0 : α) then
+          if t465 = (0 : α) then
             if t53 = (0 : α) then
-              (⟨⟨t484, t485, t486⟩, t491⟩, ⟨⟨t429, t427, t425⟩, t435⟩, ⟨⟨t468, t469, t470⟩, t475⟩, ⟨⟨t460, t461, t462⟩, t467⟩, ⟨⟨(0 : α), (0 : α), (1 : α)⟩, t44⟩, ⟨⟨(0 : α), (0 : α), (-(1 : α))⟩, f⟩)
+              (⟨⟨t492, t493, t494⟩, t499⟩, ⟨⟨t437, t435, t433⟩, t443⟩, ⟨⟨t476, t477, t478⟩, t483⟩, ⟨⟨t468, t469, t470⟩, t475⟩, ⟨⟨(0 : α), (0 : α), (1 : α)⟩, t44⟩, ⟨⟨(0 : α), (0 : α), (-(1 : α))⟩, f⟩)
             else
-              (⟨⟨t484, t485, t486⟩, t491⟩, ⟨⟨t429, t427, t425⟩, t435⟩, ⟨⟨t468, t469, t470⟩, t475⟩, ⟨⟨t460, t461, t462⟩, t467⟩, ⟨⟨(0 : α), (0 : α), (1 : α)⟩, t44⟩, ⟨⟨t83, t83, t84⟩, f⟩)
+              (⟨⟨t492, t493, t494⟩, t499⟩, ⟨⟨t437, t435, t433⟩, t443⟩, ⟨⟨t476, t477, t478⟩, t483⟩, ⟨⟨t468, t469, t470⟩, t475⟩, ⟨⟨(0 : α), (0 : α), (1 : α)⟩, t44⟩, ⟨⟨t83, t83, t84⟩, f⟩)
           else
             if t53 = (0 : α) then
-              (⟨⟨t484, t485, t486⟩, t491⟩, ⟨⟨t429, t427, t425⟩, t435⟩, ⟨⟨t468, t469, t470⟩, t475⟩, ⟨⟨t460, t461, t462⟩, t467⟩, ⟨⟨t458, t458, t459⟩, t44⟩, ⟨⟨(0 : α), (0 : α), (-(1 : α))⟩, f⟩)
+              (⟨⟨t492, t493, t494⟩, t499⟩, ⟨⟨t437, t435, t433⟩, t443⟩, ⟨⟨t476, t477, t478⟩, t483⟩, ⟨⟨t468, t469, t470⟩, t475⟩, ⟨⟨t466, t466, t467⟩, t44⟩, ⟨⟨(0 : α), (0 : α), (-(1 : α))⟩, f⟩)
             else
-              (⟨⟨t484, t485, t486⟩, t491⟩, ⟨⟨t429, t427, t425⟩, t435⟩, ⟨⟨t468, t469, t470⟩, t475⟩, ⟨⟨t460, t461, t462⟩, t467⟩, ⟨⟨t458, t458, t459⟩, t44⟩, ⟨⟨t83, t83, t84⟩, f⟩)
+              (⟨⟨t492, t493, t494⟩, t499⟩, ⟨⟨t437, t435, t433⟩, t443⟩, ⟨⟨t476, t477, t478⟩, t483⟩, ⟨⟨t468, t469, t470⟩, t475⟩, ⟨⟨t466, t466, t467⟩, t44⟩, ⟨⟨t83, t83, t84⟩, f⟩)
     else
-      if t442 = (0 : α) then
-        if t451 = (0 : α) then
-          if t457 = (0 : α) then
+      if t450 = (0 : α) then
+        if t459 = (0 : α) then
+          if t465 = (0 : α) then
             if t53 = (0 : α) then
-              (⟨⟨t484, t485, t486⟩, t491⟩, ⟨⟨t476, t477, t478⟩, t483⟩, ⟨⟨t441, t439, t437⟩, t447⟩, ⟨⟨t450, t449, t448⟩, t456⟩, ⟨⟨(0 : α), (0 : α), (1 : α)⟩, t44⟩, ⟨⟨(0 : α), (0 : α), (-(1 : α))⟩, f⟩)
+              (⟨⟨t492, t493, t494⟩, t499⟩, ⟨⟨t484, t485, t486⟩, t491⟩, ⟨⟨t449, t447, t445⟩, t455⟩, ⟨⟨t458, t457, t456⟩, t464⟩, ⟨⟨(0 : α), (0 : α), (1 : α)⟩, t44⟩, ⟨⟨(0 : α), (0 : α), (-(1 : α))⟩, f⟩)
             else
-              (⟨⟨t484, t485, t486⟩, t491⟩, ⟨⟨t476, t477, t478⟩, t483⟩, ⟨⟨t441, t439, t437⟩, t447⟩, ⟨⟨t450, t449, t448⟩, t456⟩, ⟨⟨(0 : α), (0 : α), (1 : α)⟩, t44⟩, ⟨⟨t83, t83, t84⟩, f⟩)
+              (⟨⟨t492, t493, t494⟩, t499⟩, ⟨⟨t484, t485, t486⟩, t491⟩, ⟨⟨t449, t447, t445⟩, t455⟩, ⟨⟨t458, t457, t456⟩, t464⟩, ⟨⟨(0 : α), (0 : α), (1 : α)⟩, t44⟩, ⟨⟨t83, t83, t84⟩, f⟩)
           else
             if t53 = (0 : α) then
-              (⟨⟨t484, t485, t486⟩, t491⟩, ⟨⟨t476, t477, t478⟩, t483⟩, ⟨⟨t441, t439, t437⟩, t447⟩, ⟨⟨t450, t449, t448⟩, t456⟩, ⟨⟨t458, t458, t459⟩, t44⟩, ⟨⟨(0 : α), (0 : α), (-(1 : α))⟩, f⟩)
+              (⟨⟨t492, t493, t494⟩, t499⟩, ⟨⟨t484, t485, t486⟩, t491⟩, ⟨⟨t449, t447, t445⟩, t455⟩, ⟨⟨t458, t457, t456⟩, t464⟩, ⟨⟨t466, t466, t467⟩, t44⟩, ⟨⟨(0 : α), (0 : α), (-(1 : α))⟩, f⟩)
             else
-              (⟨⟨t484, t485, t486⟩, t491⟩, ⟨⟨t476, t477, t478⟩, t483⟩, ⟨⟨t441, t439, t437⟩, t447⟩, ⟨⟨t450, t449, t448⟩, t456⟩, ⟨⟨t458, t458, t459⟩, t44⟩, ⟨⟨t83, t83, t84⟩, f⟩)
+              (⟨⟨t492, t493, t494⟩, t499⟩, ⟨⟨t484, t485, t486⟩, t491⟩, ⟨⟨t449, t447, t445⟩, t455⟩, ⟨⟨t458, t457, t456⟩, t464⟩, ⟨⟨t466, t466, t467⟩, t44⟩, ⟨⟨t83, t83, t84⟩, f⟩)
         else
-          if t457 = (0 : α) then
+          if t465 = (0 : α) then
             if t53 = (0 : α) then
-              (⟨⟨t484, t485, t486⟩, t491⟩, ⟨⟨t476, t477, t478⟩, t483⟩, ⟨⟨t441, t439, t437⟩, t447⟩, ⟨⟨t460, t461, t462⟩, t467⟩, ⟨⟨(0 : α), (0 : α), (1 : α)⟩, t44⟩, ⟨⟨(0 : α), (0 : α), (-(1 : α))⟩, f⟩)
+              (⟨⟨t492, t493, t494⟩, t499⟩, ⟨⟨t484, t485, t486⟩, t491⟩, ⟨⟨t449, t447, t445⟩, t455⟩, ⟨⟨t468, t469, t470⟩, t475⟩, ⟨⟨(0 : α), (0 : α), (1 : α)⟩, t44⟩, ⟨⟨(0 : α), (0 : α), (-(1 : α))⟩, f⟩)
             else
-              (⟨⟨t484, t485, t486⟩, t491⟩, ⟨⟨t476, t477, t478⟩, t483⟩, ⟨⟨t441, t439, t437⟩, t447⟩, ⟨⟨t460, t461, t462⟩, t467⟩, ⟨⟨(0 : α), (0 : α), (1 : α)⟩, t44⟩, ⟨⟨t83, t83, t84⟩, f⟩)
+              (⟨⟨t492, t493, t494⟩, t499⟩, ⟨⟨t484, t485, t486⟩, t491⟩, ⟨⟨t449, t447, t445⟩, t455⟩, ⟨⟨t468, t469, t470⟩, t475⟩, ⟨⟨(0 : α), (0 : α), (1 : α)⟩, t44⟩, ⟨⟨t83, t83, t84⟩, f⟩)
           else
             if t53 = (0 : α) then
-              (⟨⟨t484, t485, t486⟩, t491⟩, ⟨⟨t476, t477, t478⟩, t483⟩, ⟨⟨t441, t439, t437⟩, t447⟩, ⟨⟨t460, t461, t462⟩, t467⟩, ⟨⟨t458, t458, t459⟩, t44⟩, ⟨⟨(0 : α), (0 : α), (-(1 : α))⟩, f⟩)
+              (⟨⟨t492, t493, t494⟩, t499⟩, ⟨⟨t484, t485, t486⟩, t491⟩, ⟨⟨t449, t447, t445⟩, t455⟩, ⟨⟨t468, t469, t470⟩, t475⟩, ⟨⟨t466, t466, t467⟩, t44⟩, ⟨⟨(0 : α), (0 : α), (-(1 : α))⟩, f⟩)
             else
-              (⟨⟨t484, t485, t486⟩, t491⟩, ⟨⟨t476, t477, t478⟩, t483⟩, ⟨⟨t441, t439, t437⟩, t447⟩, ⟨⟨t460, t461, t462⟩, t467⟩, ⟨⟨t458, t458, t459⟩, t44⟩, ⟨⟨t83, t83, t84⟩, f⟩)
+              (⟨⟨t492, t493, t494⟩, t499⟩, ⟨⟨t484, t485, t486⟩, t491⟩, ⟨⟨t449, t447, t445⟩, t455⟩, ⟨⟨t468, t469, t470⟩, t475⟩, ⟨⟨t466, t466, t467⟩, t44⟩, ⟨⟨t83, t83, t84⟩, f⟩)
       else
-        if t451 = (0 : α) then
-          if t457 = (0 : α) then
+        if t459 = (0 : α) then
+          if t465 = (0 : α) then
             if t53 = (0 : α) then
-              (⟨⟨t484, t485, t486⟩, t491⟩, ⟨⟨t476, t477, t478⟩, t483⟩, ⟨⟨t468, t469, t470⟩, t475⟩, ⟨⟨t450, t449, t448⟩, t456⟩, ⟨⟨(0 : α), (0 : α), (1 : α)⟩, t44⟩, ⟨⟨(0 : α), (0 : α), (-(1 : α))⟩, f⟩)
+              (⟨⟨t492, t493, t494⟩, t499⟩, ⟨⟨t484, t485, t486⟩, t491⟩, ⟨⟨t476, t477, t478⟩, t483⟩, ⟨⟨t458, t457, t456⟩, t464⟩, ⟨⟨(0 : α), (0 : α), (1 : α)⟩, t44⟩, ⟨⟨(0 : α), (0 : α), (-(1 : α))⟩, f⟩)
             else
-              (⟨⟨t484, t485, t486⟩, t491⟩, ⟨⟨t476, t477, t478⟩, t483⟩, ⟨⟨t468, t469, t470⟩, t475⟩, ⟨⟨t450, t449, t448⟩, t456⟩, ⟨⟨(0 : α), (0 : α), (1 : α)⟩, t44⟩, ⟨⟨t83, t83, t84⟩, f⟩)
+              (⟨⟨t492, t493, t494⟩, t499⟩, ⟨⟨t484, t485, t486⟩, t491⟩, ⟨⟨t476, t477, t478⟩, t483⟩, ⟨⟨t458, t457, t456⟩, t464⟩, ⟨⟨(0 : α), (0 : α), (1 : α)⟩, t44⟩, ⟨⟨t83, t83, t84⟩, f⟩)
           else
             if t53 = (0 : α) then
-              (⟨⟨t484, t485, t486⟩, t491⟩, ⟨⟨t476, t477, t478⟩, t483⟩, ⟨⟨t468, t469, t470⟩, t475⟩, ⟨⟨t450, t449, t448⟩, t456⟩, ⟨⟨t458, t458, t459⟩, t44⟩, ⟨⟨(0 : α), (0 : α), (-(1 : α))⟩, f⟩)
+              (⟨⟨t492, t493, t494⟩, t499⟩, ⟨⟨t484, t485, t486⟩, t491⟩, ⟨⟨t476, t477, t478⟩, t483⟩, ⟨⟨t458, t457, t456⟩, t464⟩, ⟨⟨t466, t466, t467⟩, t44⟩, ⟨⟨(0 : α), (0 : α), (-(1 : α))⟩, f⟩)
             else
-              (⟨⟨t484, t485, t486⟩, t491⟩, ⟨⟨t476, t477, t478⟩, t483⟩, ⟨⟨t468, t469, t470⟩, t475⟩, ⟨⟨t450, t449, t448⟩, t456⟩, ⟨⟨t458, t458, t459⟩, t44⟩, ⟨⟨t83, t83, t84⟩, f⟩)
+              (⟨⟨t492, t493, t494⟩, t499⟩, ⟨⟨t484, t485, t486⟩, t491⟩, ⟨⟨t476, t477, t478⟩, t483⟩, ⟨⟨t458, t457, t456⟩, t464⟩, ⟨⟨t466, t466, t467⟩, t44⟩, ⟨⟨t83, t83, t84⟩, f⟩)
         else
-          if t457 = (0 : α) then
+          if t465 = (0 : α) then
             if t53 = (0 : α) then
-              (⟨⟨t484, t485, t486⟩, t491⟩, ⟨⟨t476, t477, t478⟩, t483⟩, ⟨⟨t468, t469, t470⟩, t475⟩, ⟨⟨t460, t461, t462⟩, t467⟩, ⟨⟨(0 : α), (0 : α), (1 : α)⟩, t44⟩, ⟨⟨(0 : α), (0 : α), (-(1 : α))⟩, f⟩)
+              (⟨⟨t492, t493, t494⟩, t499⟩, ⟨⟨t484, t485, t486⟩, t491⟩, ⟨⟨t476, t477, t478⟩, t483⟩, ⟨⟨t468, t469, t470⟩, t475⟩, ⟨⟨(0 : α), (0 : α), (1 : α)⟩, t44⟩, ⟨⟨(0 : α), (0 : α), (-(1 : α))⟩, f⟩)
             else
-              (⟨⟨t484, t485, t486⟩, t491⟩, ⟨⟨t476, t477, t478⟩, t483⟩, ⟨⟨t468, t469, t470⟩, t475⟩, ⟨⟨t460, t461, t462⟩, t467⟩, ⟨⟨(0 : α), (0 : α), (1 : α)⟩, t44⟩, ⟨⟨t83, t83, t84⟩, f⟩)
+              (⟨⟨t492, t493, t494⟩, t499⟩, ⟨⟨t484, t485, t486⟩, t491⟩, ⟨⟨t476, t477, t478⟩, t483⟩, ⟨⟨t468, t469, t470⟩, t475⟩, ⟨⟨(0 : α), (0 : α), (1 : α)⟩, t44⟩, ⟨⟨t83, t83, t84⟩, f⟩)
           else
             if t53 = (0 : α) then
-              (⟨⟨t484, t485, t486⟩, t491⟩, ⟨⟨t476, t477, t478⟩, t483⟩, ⟨⟨t468, t469, t470⟩, t475⟩, ⟨⟨t460, t461, t462⟩, t467⟩, ⟨⟨t458, t458, t459⟩, t44⟩, ⟨⟨(0 : α), (0 : α), (-(1 : α))⟩, f⟩)
+              (⟨⟨t492, t493, t494⟩, t499⟩, ⟨⟨t484, t485, t486⟩, t491⟩, ⟨⟨t476, t477, t478⟩, t483⟩, ⟨⟨t468, t469, t470⟩, t475⟩, ⟨⟨t466, t466, t467⟩, t44⟩, ⟨⟨(0 : α), (0 : α), (-(1 : α))⟩, f⟩)
             else
-              (⟨⟨t484, t485, t486⟩, t491⟩, ⟨⟨t476, t477, t478⟩, t483⟩, ⟨⟨t468, t469, t470⟩, t475⟩, ⟨⟨t460, t461, t462⟩, t467⟩, ⟨⟨t458, t458, t459⟩, t44⟩, ⟨⟨t83, t83, t84⟩, f⟩)
+              (⟨⟨t492, t493, t494⟩, t499⟩, ⟨⟨t484, t485, t486⟩, t491⟩, ⟨⟨t476, t477, t478⟩, t483⟩, ⟨⟨t468, t469, t470⟩, t475⟩, ⟨⟨t466, t466, t467⟩, t44⟩, ⟨⟨t83, t83, t84⟩, f⟩)
 
 /-- extracted from the C++ template at T = Sym; 64 path(s) -/
 def Frustum.planes_ortho {α : Type} [Add α] [Mul α] [Div α] [Neg α] [LT α] [LE α] [DecidableLT α] [DecidableLE α] [DecidableEq α] [OfNat α 0] [OfNat α 1] [OfNat α 2] (tmin : α) (tmax : α) (sqrt : α → α) (n : α) (f : α) (l : α) (r : α) (t : α) (b : α) : ((Plane3 α) × (Plane3 α) × (Plane3 α) × (Plane3 α) × (Plane3 α) × (Plane3 α)) :=
@@ -806,212 +854,212 @@ def Frustum.planes_ortho {α : Type} [Add α] [Mul α] [Div α] [Neg α] [LT α]
   let t53 := (V3.length tmin tmax sqrt ⟨(0 : α), (0 : α), (-(1 : α))⟩)
   let t83 := ((0 : α) / t53)
   let t84 := ((-(1 : α)) / t53)
-  let t457 := (V3.length tmin tmax sqrt ⟨(0 : α), (0 : α), (1 : α)⟩)
-  let t458 := ((0 : α) / t457)
-  let t459 := ((1 : α) / t457)
-  let t492 := (V3.length tmin tmax sqrt ⟨(0 : α), (1 : α), (0 : α)⟩)
-  let t493 := (V3.length tmin tmax sqrt ⟨(1 : α), (0 : α), (0 : α)⟩)
-  let t494 := (-b)
-  let t495 := (V3.length tmin tmax sqrt ⟨(0 : α), (-(1 : α)), (0 : α)⟩)
-  let t496 := (-l)
-  let t497 := (V3.length tmin tmax sqrt ⟨(-(1 : α)), (0 : α), (0 : α)⟩)
-  let t498 := ((-(1 : α)) / t497)
-  let t499 := ((0 : α) / t497)
-  let t500 := ((0 : α) / t495)
-  let t501 := ((-(1 : α)) / t495)
-  let t502 := ((1 : α) / t493)
-  let t503 := ((0 : α) / t493)
-  let t504 := ((0 : α) / t492)
-  let t505 := ((1 : α) / t492)
-  if t492 = (0 : α) then
-    if t493 = (0 : α) then
-      if t495 = (0 : α) then
-        if t497 = (0 : α) then
-          if t457 = (0 : α) then
+  let t465 := (V3.length tmin tmax sqrt ⟨(0 : α), (0 : α), (1 : α)⟩)
+  let t466 := ((0 : α) / t465)
+  let t467 := ((1 : α) / t465)
+  let t500 := (V3.length tmin tmax sqrt ⟨(0 : α), (1 : α), (0 : α)⟩)
+  let t501 := (V3.length tmin tmax sqrt ⟨(1 : α), (0 : α), (0 : α)⟩)
+  let t502 := (-b)
+  let t503 := (V3.length tmin tmax sqrt ⟨(0 : α), (-(1 : α)), (0 : α)⟩)
+  let t504 := (-l)
+  let t505 := (V3.length tmin tmax sqrt ⟨(-(1 : α)), (0 : α), (0 : α)⟩)
+  let t506 := ((-(1 : α)) / t505)
+  let t507 := ((0 : α) / t505)
+  let t508 := ((0 : α) / t503)
+  let t509 := ((-(1 : α)) / t503)
+  let t510 := ((1 : α) / t501)
+  let t511 := ((0 : α) / t501)
+  let t512 := ((0 : α) / t500)
+  let t513 := ((1 : α) / t500)
+  if t500 = (0 : α) then
+    if t501 = (0 : α) then
+      if t503 = (0 : α) then
+        if t505 = (0 : α) then
+          if t465 = (0 : α) then
             if t53 = (0 : α) then
-              (⟨⟨(0 : α), (1 : α), (0 : α)⟩, t⟩, ⟨⟨(1 : α), (0 : α), (0 : α)⟩, r⟩, ⟨⟨(0 : α), (-(1 : α)), (0 : α)⟩, t494⟩, ⟨⟨(-(1 : α)), (0 : α), (0 : α)⟩, t496⟩, ⟨⟨(0 : α), (0 : α), (1 : α)⟩, t44⟩, ⟨⟨(0 : α), (0 : α), (-(1 : α))⟩, f⟩)
+              (⟨⟨(0 : α), (1 : α), (0 : α)⟩, t⟩, ⟨⟨(1 : α), (0 : α), (0 : α)⟩, r⟩, ⟨⟨(0 : α), (-(1 : α)), (0 : α)⟩, t502⟩, ⟨⟨(-(1 : α)), (0 : α), (0 : α)⟩, t504⟩, ⟨⟨(0 : α), (0 : α), (1 : α)⟩, t44⟩, ⟨⟨(0 : α), (0 : α), (-(1 : α))⟩, f⟩)
             else
-              (⟨⟨(0 : α), (1 : α), (0 : α)⟩, t⟩, ⟨⟨(1 : α), (0 : α), (0 : α)⟩, r⟩, ⟨⟨(0 : α), (-(1 : α)), (0 : α)⟩, t494⟩, ⟨⟨(-(1 : α)), (0 : α), (0 : α)⟩, t496⟩, ⟨⟨(0 : α), (0 : α), (1 : α)⟩, t44⟩, ⟨⟨t83, t83, t84⟩, f⟩)
+              (⟨⟨(0 : α), (1 : α), (0 : α)⟩, t⟩, ⟨⟨(1 : α), (0 : α), (0 : α)⟩, r⟩, ⟨⟨(0 : α), (-(1 : α)), (0 : α)⟩, t502⟩, ⟨⟨(-(1 : α)), (0 : α), (0 : α)⟩, t504⟩, ⟨⟨(0 : α), (0 : α), (1 : α)⟩, t44⟩, ⟨⟨t83, t83, t84⟩, f⟩)
           else
             if t53 = (0 : α) then
-              (⟨⟨(0 : α), (1 : α), (0 : α)⟩, t⟩, ⟨⟨(1 : α), (0 : α), (0 : α)⟩, r⟩, ⟨⟨(0 : α), (-(1 : α)), (0 : α)⟩, t494⟩, ⟨⟨(-(1 : α)), (0 : α), (0 : α)⟩, t496⟩, ⟨⟨t458, t458, t459⟩, t44⟩, ⟨⟨(0 : α), (0 : α), (-(1 : α))⟩, f⟩)
+              (⟨⟨(0 : α), (1 : α), (0 : α)⟩, t⟩, ⟨⟨(1 : α), (0 : α), (0 : α)⟩, r⟩, ⟨⟨(0 : α), (-(1 : α)), (0 : α)⟩, t502⟩, ⟨⟨(-(1 : α)), (0 : α), (0 : α)⟩, t504⟩, ⟨⟨t466, t466, t467⟩, t44⟩, ⟨⟨(0 : α), (0 : α), (-(1 : α))⟩, f⟩)
             else
-              (⟨⟨(0 : α), (1 : α), (0 : α)⟩, t⟩, ⟨⟨(1 : α), (0 : α), (0 : α)⟩, r⟩, ⟨⟨(0 : α), (-(1 : α)), (0 : α)⟩, t494⟩, ⟨⟨(-(1 : α)), (0 : α), (0 : α)⟩, t496⟩, ⟨⟨t458, t458, t459⟩, t44⟩, ⟨⟨t83, t83, t84⟩, f⟩)
+              (⟨⟨(0 : α), (1 : α), (0 : α)⟩, t⟩, ⟨⟨(1 : α), (0 : α), (0 : α)⟩, r⟩, ⟨⟨(0 : α), (-(1 : α)), (0 : α)⟩, t502⟩, ⟨⟨(-(1 : α)), (0 : α), (0 : α)⟩, t504⟩, ⟨⟨t466, t466, t467⟩, t44⟩, ⟨⟨t83, t83, t84⟩, f⟩)
         else
-          if t457 = (0 : α) then
+          if t465 = (0 : α) then
             if t53 = (0 : α) then
-              (⟨⟨(0 : α), (1 : α), (0 : α)⟩, t⟩, ⟨⟨(1 : α), (0 : α), (0 : α)⟩, r⟩, ⟨⟨(0 : α), (-(1 : α)), (0 : α)⟩, t494⟩, ⟨⟨t498, t499, t499⟩, t496⟩, ⟨⟨(0 : α), (0 : α), (1 : α)⟩, t44⟩, ⟨⟨(0 : α), (0 : α), (-(1 : α))⟩, f⟩)
+              (⟨⟨(0 : α), (1 : α), (0 : α)⟩, t⟩, ⟨⟨(1 : α), (0 : α), (0 : α)⟩, r⟩, ⟨⟨(0 : α), (-(1 : α)), (0 : α)⟩, t502⟩, ⟨⟨t506, t507, t507⟩, t504⟩, ⟨⟨(0 : α), (0 : α), (1 : α)⟩, t44⟩, ⟨⟨(0 : α), (0 : α), (-(1 : α))⟩, f⟩)
             else
-              (⟨⟨(0 : α), (1 : α), (0 : α)⟩, t⟩, ⟨⟨(1 : α), (0 : α), (0 : α)⟩, r⟩, ⟨⟨(0 : α), (-(1 : α)), (0 : α)⟩, t494⟩, ⟨⟨t498, t499, t499⟩, t496⟩, ⟨⟨(0 : α), (0 : α), (1 : α)⟩, t44⟩, ⟨⟨t83, t83, t84⟩, f⟩)
+              (⟨⟨(0 : α), (1 : α), (0 : α)⟩, t⟩, ⟨⟨(1 : α), (0 : α), (0 : α)⟩, r⟩, ⟨⟨(0 : α), (-(1 : α)), (0 : α)⟩, t502⟩, ⟨⟨t506, t507, t507⟩, t504⟩, ⟨⟨(0 : α), (0 : α), (1 : α)⟩, t44⟩, ⟨⟨t83, t83, t84⟩, f⟩)
           else
             if t53 = (0 : α) then
-              (⟨⟨(0 : α), (1 : α), (0 : α)⟩, t⟩, ⟨⟨(1 : α), (0 : α), (0 : α)⟩, r⟩, ⟨⟨(0 : α), (-(1 : α)), (0 : α)⟩, t494⟩, ⟨⟨t498, t499, t499⟩, t496⟩, ⟨⟨t458, t458, t459⟩, t44⟩, ⟨⟨(0 : α), (0 : α), (-(1 : α))⟩, f⟩)
+              (⟨⟨(0 : α), (1 : α), (0 : α)⟩, t⟩, ⟨⟨(1 : α), (0 : α), (0 : α)⟩, r⟩, ⟨⟨(0 : α), (-(1 : α)), (0 : α)⟩, t502⟩, ⟨⟨t506, t507, t507⟩, t504⟩, ⟨⟨t466, t466, t467⟩, t44⟩, ⟨⟨(0 : α), (0 : α), (-(1 : α))⟩, f⟩)
             else
-              (⟨⟨(0 : α), (1 : α), (0 : α)⟩, t⟩, ⟨⟨(1 : α), (0 : α), (0 : α)⟩, r⟩, ⟨⟨(0 : α), (-(1 : α)), (0 : α)⟩, t494⟩, ⟨⟨t498, t499, t499⟩, t496⟩, ⟨⟨t458, t458, t459⟩, t44⟩, ⟨⟨t83, t83, t84⟩, f⟩)
+              (⟨⟨(0 : α), (1 : α), (0 : α)⟩, t⟩, ⟨⟨(1 : α), (0 : α), (0 : α)⟩, r⟩, ⟨⟨(0 : α), (-(1 : α)), (0 : α)⟩, t502⟩, ⟨⟨t506, t507, t507⟩, t504⟩, ⟨⟨t466, t466, t467⟩, t44⟩, ⟨⟨t83, t83, t84⟩, f⟩)
       else
-        if t497 = (0 : α) then
-          if t457 = (0 : α) then
+        if t505 = (0 : α) then
+          if t465 = (0 : α) then
             if t53 = (0 : α) then
-              (⟨⟨(0 : α), (1 : α), (0 : α)⟩, t⟩, ⟨⟨(1 : α), (0 : α), (0 : α)⟩, r⟩, ⟨⟨t500, t501, t500⟩, t494⟩, ⟨⟨(-(1 : α)), (0 : α), (0 : α)⟩, t496⟩, ⟨⟨(0 : α), (0 : α), (1 : α)⟩, t44⟩, ⟨⟨(0 : α), (0 : α), (-(1 : α))⟩, f⟩)
+              (⟨⟨(0 : α), (1 : α), (0 : α)⟩, t⟩, ⟨⟨(1 : α), (0 : α), (0 : α)⟩, r⟩, ⟨⟨t508, t509, t508⟩, t502⟩, ⟨⟨(-(1 : α)), (0 : α), (0 : α)⟩, t504⟩, ⟨⟨(0 : α), (0 : α), (1 : α)⟩, t44⟩, ⟨⟨(0 : α), (0 : α), (-(1 : α))⟩, f⟩)
             else
-              (⟨⟨(0 : α), (1 : α), (0 : α)⟩, t⟩, ⟨⟨(1 : α), (0 : α), (0 : α)⟩, r⟩, ⟨⟨t500, t501, t500⟩, t494⟩, ⟨⟨(-(1 : α)), (0 : α), (0 : α)⟩, t496⟩, ⟨⟨(0 : α), (0 : α), (1 : α)⟩, t44⟩, ⟨⟨t83, t83, t84⟩, f⟩)
+              (⟨⟨(0 : α), (1 : α), (0 : α)⟩, t⟩, ⟨⟨(1 : α), (0 : α), (0 : α)⟩, r⟩, ⟨⟨t508, t509, t508⟩, t502⟩, ⟨⟨(-(1 : α)), (0 : α), (0 : α)⟩, t504⟩, ⟨⟨(0 : α), (0 : α), (1 : α)⟩, t44⟩, ⟨⟨t83, t83, t84⟩, f⟩)
           else
             if t53 = (0 : α) then
-              (⟨⟨(0 : α), (1 : α), (0 : α)⟩, t⟩, ⟨⟨(1 : α), (0 : α), (0 : α)⟩, r⟩, ⟨⟨t500, t501, t500⟩, t494⟩, ⟨⟨(-(1 : α)), (0 : α), (0 : α)⟩, t496⟩, ⟨⟨t458, t458, t459⟩, t44⟩, ⟨⟨(0 : α), (0 : α), (-(1 : α))⟩, f⟩)
+              (⟨⟨(0 : α), (1 : α), (0 : α)⟩, t⟩, ⟨⟨(1 : α), (0 : α), (0 : α)⟩, r⟩, ⟨⟨t508, t509, t508⟩, t502⟩, ⟨⟨(-(1 : α)), (0 : α), (0 : α)⟩, t504⟩, ⟨⟨t466, t466, t467⟩, t44⟩, ⟨⟨(0 : α), (0 : α), (-(1 : α))⟩, f⟩)
             else
-              (⟨⟨(0 : α), (1 : α), (0 : α)⟩, t⟩, ⟨⟨(1 : α), (0 : α), (0 : α)⟩, r⟩, ⟨⟨t500, t501, t500⟩, t494⟩, ⟨⟨(-(1 : α)), (0 : α), (0 : α)⟩, t496⟩, ⟨⟨t458, t458, t459⟩, t44⟩, ⟨⟨t83, t83, t84⟩, f⟩)
+              (⟨⟨(0 : α), (1 : α), (0 : α)⟩, t⟩, ⟨⟨(1 : α), (0 : α), (0 : α)⟩, r⟩, ⟨⟨t508, t509, t508⟩, t502⟩, ⟨⟨(-(1 : α)), (0 : α), (0 : α)⟩, t504⟩, ⟨⟨t466, t466, t467⟩, t44⟩, ⟨⟨t83, t83, t84⟩, f⟩)
         else
-          if t457 = (0 : α) then
+          if t465 = (0 : α) then
             if t53 = (0 : α) then
-              (⟨⟨(0 : α), (1 : α), (0 : α)⟩, t⟩, ⟨⟨(1 : α), (0 : α), (0 : α)⟩, r⟩, ⟨⟨t500, t501, t500⟩, t494⟩, ⟨⟨t498, t499, t499⟩, t496⟩, ⟨⟨(0 : α), (0 : α), (1 : α)⟩, t44⟩, ⟨⟨(0 : α), (0 : α), (-(1 : α))⟩, f⟩)
+              (⟨⟨(0 : α), (1 : α), (0 : α)⟩, t⟩, ⟨⟨(1 : α), (0 : α), (0 : α)⟩, r⟩, ⟨⟨t508, t509, t508⟩, t502⟩, ⟨⟨t506, t507, t507⟩, t504⟩, ⟨⟨(0 : α), (0 : α), (1 : α)⟩, t44⟩, ⟨⟨(0 : α), (0 : α), (-(1 : α))⟩, f⟩)
             else
-              (⟨⟨(0 : α), (1 : α), (0 : α)⟩, t⟩, ⟨⟨(1 : α), (0 : α), (0 : α)⟩, r⟩, ⟨⟨t500, t501, t500⟩, t494⟩, ⟨⟨t498, t499, t499⟩, t496⟩, ⟨⟨(0 : α), (0 : α), (1 : α)⟩, t44⟩, ⟨⟨t83, t83, t84⟩, f⟩)
+              (⟨⟨(0 : α), (1 : α), (0 : α)⟩, t⟩, ⟨⟨(1 : α), (0 : α), (0 : α)⟩, r⟩, ⟨⟨t508, t509, t508⟩, t502⟩, ⟨⟨t506, t507, t507⟩, t504⟩, ⟨⟨(0 : α), (0 : α), (1 : α)⟩, t44⟩, ⟨⟨t83, t83, t84⟩, f⟩)
           else
             if t53 = (0 : α) then
-              (⟨⟨(0 : α), (1 : α), (0 : α)⟩, t⟩, ⟨⟨(1 : α), (0 : α), (0 : α)⟩, r⟩, ⟨⟨t500, t501, t500⟩, t494⟩, ⟨⟨t498, t499, t499⟩, t496⟩, ⟨⟨t458, t458, t459⟩, t44⟩, ⟨⟨(0 : α), (0 : α), (-(1 : α))⟩, f⟩)
+              (⟨⟨(0 : α), (1 : α), (0 : α)⟩, t⟩, ⟨⟨(1 : α), (0 : α), (0 : α)⟩, r⟩, ⟨⟨t508, t509, t508⟩, t502⟩, ⟨⟨t506, t507, t507⟩, t504⟩, ⟨⟨t466, t466, t467⟩, t44⟩, ⟨⟨(0 : α), (0 : α), (-(1 : α))⟩, f⟩)
             else
-              (⟨⟨(0 : α), (1 : α), (0 : α)⟩, t⟩, ⟨⟨(1 : α), (0 : α), (0 : α)⟩, r⟩, ⟨⟨t500, t501, t500⟩, t494⟩, ⟨⟨t498, t499, t499⟩, t496⟩, ⟨⟨t458, t458, t459⟩, t44⟩, ⟨⟨t83, t83, t84⟩, f⟩)
+              (⟨⟨(0 : α), (1 : α), (0 : α)⟩, t⟩, ⟨⟨(1 : α), (0 : α), (0 : α)⟩, r⟩, ⟨⟨t508, t509, t508⟩, t502⟩, ⟨⟨t506, t507, t507⟩, t504⟩, ⟨⟨t466, t466, t467⟩, t44⟩, ⟨⟨t83, t83, t84⟩, f⟩)
     else
-      if t495 = (0 : α) then
-        if t497 = (0 : α) then
-          if t457 = (0 : α) then
+      if t503 = (0 : α) then
+        if t505 = (0 : α) then
+          if t465 = (0 : α) then
             if t53 = (0 : α) then
-              (⟨⟨(0 : α), (1 : α), (0 : α)⟩, t⟩, ⟨⟨t502, t503, t503⟩, r⟩, ⟨⟨(0 : α), (-(1 : α)), (0 : α)⟩, t494⟩, ⟨⟨(-(1 : α)), (0 : α), (0 : α)⟩, t496⟩, ⟨⟨(0 : α), (0 : α), (1 : α)⟩, t44⟩, ⟨⟨(0 : α), (0 : α), (-(1 : α))⟩, f⟩)
+              (⟨⟨(0 : α), (1 : α), (0 : α)⟩, t⟩, ⟨⟨t510, t511, t511⟩, r⟩, ⟨⟨(0 : α), (-(1 : α)), (0 : α)⟩, t502⟩, ⟨⟨(-(1 : α)), (0 : α), (0 : α)⟩, t504⟩, ⟨⟨(0 : α), (0 : α), (1 : α)⟩, t44⟩, ⟨⟨(0 : α), (0 : α), (-(1 : α))⟩, f⟩)
             else
-              (⟨⟨(0 : α), (1 : α), (0 : α)⟩, t⟩, ⟨⟨t502, t503, t503⟩, r⟩, ⟨⟨(0 : α), (-(1 : α)), (0 : α)⟩, t494⟩, ⟨⟨(-(1 : α)), (0 : α), (0 : α)⟩, t496⟩, ⟨⟨(0 : α), (0 : α), (1 : α)⟩, t44⟩, ⟨⟨t83, t83, t84⟩, f⟩)
+              (⟨⟨(0 : α), (1 : α), (0 : α)⟩, t⟩, ⟨⟨t510, t511, t511⟩, r⟩, ⟨⟨(0 : α), (-(1 : α)), (0 : α)⟩, t502⟩, ⟨⟨(-(1 : α)), (0 : α), (0 : α)⟩, t504⟩, ⟨⟨(0 : α), (0 : α), (1 : α)⟩, t44⟩, ⟨⟨t83, t83, t84⟩, f⟩)
           else
             if t53 = (0 : α) then
-              (⟨⟨(0 : α), (1 : α), (0 : α)⟩, t⟩, ⟨⟨t502, t503, t503⟩, r⟩, ⟨⟨(0 : α), (-(1 : α)), (0 : α)⟩, t494⟩, ⟨⟨(-(1 : α)), (0 : α), (0 : α)⟩, t496⟩, ⟨⟨t458, t458, t459⟩, t44⟩, ⟨⟨(0 : α), (0 : α), (-(1 : α))⟩, f⟩)
+              (⟨⟨(0 : α), (1 : α), (0 : α)⟩, t⟩, ⟨⟨t510, t511, t511⟩, r⟩, ⟨⟨(0 : α), (-(1 : α)), (0 : α)⟩, t502⟩, ⟨⟨(-(1 : α)), (0 : α), (0 : α)⟩, t504⟩, ⟨⟨t466, t466, t467⟩, t44⟩, ⟨⟨(0 : α), (0 : α), (-(1 : α))⟩, f⟩)
             else
-              (⟨⟨(0 : α), (1 : α), (0 : α)⟩, t⟩, ⟨⟨t502, t503, t503⟩, r⟩, ⟨⟨(0 : α), (-(1 : α)), (0 : α)⟩, t494⟩, ⟨⟨(-(1 : α)), (0 : α), (0 : α)⟩, t496⟩, ⟨⟨t458, t458, t459⟩, t44⟩, ⟨⟨t83, t83, t84⟩, f⟩)
+              (⟨⟨(0 : α), (1 : α), (0 : α)⟩, t⟩, ⟨⟨t510, t511, t511⟩, r⟩, ⟨⟨(0 : α), (-(1 : α)), (0 : α)⟩, t502⟩, ⟨⟨(-(1 : α)), (0 : α), (0 : α)⟩, t504⟩, ⟨⟨t466, t466, t467⟩, t44⟩, ⟨⟨t83, t83, t84⟩, f⟩)
         else
-          if t457 = (0 : α) then
+          if t465 = (0 : α) then
             if t53 = (0 : α) then
-              (⟨⟨(0 : α), (1 : α), (0 : α)⟩, t⟩, ⟨⟨t502, t503, t503⟩, r⟩, ⟨⟨(0 : α), (-(1 : α)), (0 : α)⟩, t494⟩, ⟨⟨t498, t499, t499⟩, t496⟩, ⟨⟨(0 : α), (0 : α), (1 : α)⟩, t44⟩, ⟨⟨(0 : α), (0 : α), (-(1 : α))⟩, f⟩)
+              (⟨⟨(0 : α), (1 : α), (0 : α)⟩, t⟩, ⟨⟨t510, t511, t511⟩, r⟩, ⟨⟨(0 : α), (-(1 : α)), (0 : α)⟩, t502⟩, ⟨⟨t506, t507, t507⟩, t504⟩, ⟨⟨(0 : α), (0 : α), (1 : α)⟩, t44⟩, ⟨⟨(0 : α), (0 : α), (-(1 : α))⟩, f⟩)
             else
-              (⟨⟨(0 : α), (1 : α), (0 : α)⟩, t⟩, ⟨⟨t502, t503, t503⟩, r⟩, ⟨⟨(0 : α), (-(1 : α)), (0 : α)⟩, t494⟩, ⟨⟨t498, t499, t499⟩, t496⟩, ⟨⟨(0 : α), (0 : α), (1 : α)⟩, t44⟩, ⟨⟨t83, t83, t84⟩, f⟩)
+              (⟨⟨(0 : α), (1 : α), (0 : α)⟩, t⟩, ⟨⟨t510, t511, t511⟩, r⟩, ⟨⟨(0 : α), (-(1 : α)), (0 : α)⟩, t502⟩, ⟨⟨t506, t507, t507⟩, t504⟩, ⟨⟨(0 : α), (0 : α), (1 : α)⟩, t44⟩, ⟨⟨t83, t83, t84⟩, f⟩)
           else
             if t53 = (0 : α) then
-              (⟨⟨(0 : α), (1 : α), (0 : α)⟩, t⟩, ⟨⟨t502, t503, t503⟩, r⟩, ⟨⟨(0 : α), (-(1 : α)), (0 : α)⟩, t494⟩, ⟨⟨t498, t499, t499⟩, t496⟩, ⟨⟨t458, t458, t459⟩, t44⟩, ⟨⟨(0 : α), (0 : α), (-(1 : α))⟩, f⟩)
+              (⟨⟨(0 : α), (1 : α), (0 : α)⟩, t⟩, ⟨⟨t510, t511, t511⟩, r⟩, ⟨⟨(0 : α), (-(1 : α)), (0 : α)⟩, t502⟩, ⟨⟨t506, t507, t507⟩, t504⟩, ⟨⟨t466, t466, t467⟩, t44⟩, ⟨⟨(0 : α), (0 : α), (-(1 : α))⟩, f⟩)
             else
-              (⟨⟨(0 : α), (1 : α), (0 : α)⟩, t⟩, ⟨⟨t502, t503, t503⟩, r⟩, ⟨⟨(0 : α), (-(1 : α)), (0 : α)⟩, t494⟩, ⟨⟨t498, t499, t499⟩, t496⟩, ⟨⟨t458, t458, t459⟩, t44⟩, ⟨⟨t83, t83, t84⟩, f⟩)
+              (⟨⟨(0 : α), (1 : α), (0 : α)⟩, t⟩, ⟨⟨t510, t511, t511⟩, r⟩, ⟨⟨(0 : α), (-(1 : α)), (0 : α)⟩, t502⟩, ⟨⟨t506, t507, t507⟩, t504⟩, ⟨⟨t466, t466, t467⟩, t44⟩, ⟨⟨t83, t83, t84⟩, f⟩)
       else
-        if t497 = (0 : α) then
-          if t457 = (0 : α) then
+        if t505 = (0 : α) then
+          if t465 = (0 : α) then
             if t53 = (0 : α) then
-              (⟨⟨(0 : α), (1 : α), (0 : α)⟩, t⟩, ⟨⟨t502, t503, t503⟩, r⟩, ⟨⟨t500, t501, t500⟩, t494⟩, ⟨⟨(-(1 : α)), (0 : α), (0 : α)⟩, t496⟩, ⟨⟨(0 : α), (0 : α), (1 : α)⟩, t44⟩, ⟨⟨(0 : α), (0 : α), (-(1 : α))⟩, f⟩)
+              (⟨⟨(0 : α), (1 : α), (0 : α)⟩, t⟩, ⟨⟨t510, t511, t511⟩, r⟩, ⟨⟨t508, t509, t508⟩, t502⟩, ⟨⟨(-(1 : α)), (0 : α), (0 : α)⟩, t504⟩, ⟨⟨(0 : α), (0 : α), (1 : α)⟩, t44⟩, ⟨⟨(0 : α), (0 : α), (-(1 : α))⟩, f⟩)
             else
-              (⟨⟨(0 : α), (1 : α), (0 : α)⟩, t⟩, ⟨⟨t502, t503, t503⟩, r⟩, ⟨⟨t500, t501, t500⟩, t494⟩, ⟨⟨(-(1 : α)), (0 : α), (0 : α)⟩, t496⟩, ⟨⟨(0 : α), (0 : α), (1 : α)⟩, t44⟩, ⟨⟨t83, t83, t84⟩, f⟩)
+              (⟨⟨(0 : α), (1 : α), (0 : α)⟩, t⟩, ⟨⟨t510, t511, t511⟩, r⟩, ⟨⟨t508, t509, t508⟩, t502⟩, ⟨⟨(-(1 : α)), (0 : α), (0 : α)⟩, t504⟩, ⟨⟨(0 : α), (0 : α), (1 : α)⟩, t44⟩, ⟨⟨t83, t83, t84⟩, f⟩)
           else
             if t53 = (0 : α) then
-              (⟨⟨(0 : α), (1 : α), (0 : α)⟩, t⟩, ⟨⟨t502, t503, t503⟩, r⟩, ⟨⟨t500, t501, t500⟩, t494⟩, ⟨⟨(-(1 : α)), (0 : α), (0 : α)⟩, t496⟩, ⟨⟨t458, t458, t459⟩, t44⟩, ⟨⟨(0 : α), (0 : α), (-(1 : α))⟩, f⟩)
+              (⟨⟨(0 : α), (1 : α), (0 : α)⟩, t⟩, ⟨⟨t510, t511, t511⟩, r⟩, ⟨⟨t508, t509, t508⟩, t502⟩, ⟨⟨(-(1 : α)), (0 : α), (0 : α)⟩, t504⟩, ⟨⟨t466, t466, t467⟩, t44⟩, ⟨⟨(0 : α), (0 : α), (-(1 : α))⟩, f⟩)
             else
-              (⟨⟨(0 : α), (1 : α), (0 : α)⟩, t⟩, ⟨⟨t502, t503, t503⟩, r⟩, ⟨⟨t500, t501, t500⟩, t494⟩, ⟨⟨(-(1 : α)), (0 : α), (0 : α)⟩, t496⟩, ⟨⟨t458, t458, t459⟩, t44⟩, ⟨⟨t83, t83, t84⟩, f⟩)
+              (⟨⟨(0 : α), (1 : α), (0 : α)⟩, t⟩, ⟨⟨t510, t511, t511⟩, r⟩, ⟨⟨t508, t509, t508⟩, t502⟩, ⟨⟨(-(1 : α)), (0 : α), (0 : α)⟩, t504⟩, ⟨⟨t466, t466, t467⟩, t44⟩, ⟨⟨t83, t83, t84⟩, f⟩)
         else
-          if t457 = (0 : α) then
+          if t465 = (0 : α) then
             if t53 = (0 : α) then
-              (⟨⟨(0 : α), (1 : α), (0 : α)⟩, t⟩, ⟨⟨t502, t503, t503⟩, r⟩, ⟨⟨t500, t501, t500⟩, t494⟩, ⟨⟨t498, t499, t499⟩, t496⟩, ⟨⟨(0 : α), (0 : α), (1 : α)⟩, t44⟩, ⟨⟨(0 : α), (0 : α), (-(1 : α))⟩, f⟩)
+              (⟨⟨(0 : α), (1 : α), (0 : α)⟩, t⟩, ⟨⟨t510, t511, t511⟩, r⟩, ⟨⟨t508, t509, t508⟩, t502⟩, ⟨⟨t506, t507, t507⟩, t504⟩, ⟨⟨(0 : α), (0 : α), (1 : α)⟩, t44⟩, ⟨⟨(0 : α), (0 : α), (-(1 : α))⟩, f⟩)
             else
-              (⟨⟨(0 : α), (1 : α), (0 : α)⟩, t⟩, ⟨⟨t502, t503, t503⟩, r⟩, ⟨⟨t500, t501, t500⟩, t494⟩, ⟨⟨t498, t499, t499⟩, t496⟩, ⟨⟨(0 : α), (0 : α), (1 : α)⟩, t44⟩, ⟨⟨t83, t83, t84⟩, f⟩)
+              (⟨⟨(0 : α), (1 : α), (0 : α)⟩, t⟩, ⟨⟨t510, t511, t511⟩, r⟩, ⟨⟨t508, t509, t508⟩, t502⟩, ⟨⟨t506, t507, t507⟩, t504⟩, ⟨⟨(0 : α), (0 : α), (1 : α)⟩, t44⟩, ⟨⟨t83, t83, t84⟩, f⟩)
           else
             if t53 = (0 : α) then
-              (⟨⟨(0 : α), (1 : α), (0 : α)⟩, t⟩, ⟨⟨t502, t503, t503⟩, r⟩, ⟨⟨t500, t501, t500⟩, t494⟩, ⟨⟨t498, t499, t499⟩, t496⟩, ⟨⟨t458, t458, t459⟩, t44⟩, ⟨⟨(0 : α), (0 : α), (-(1 : α))⟩, f⟩)
+              (⟨⟨(0 : α), (1 : α), (0 : α)⟩, t⟩, ⟨⟨t510, t511, t511⟩, r⟩, ⟨⟨t508, t509, t508⟩, t502⟩, ⟨⟨t506, t507, t507⟩, t504⟩, ⟨⟨t466, t466, t467⟩, t44⟩, ⟨⟨(0 : α), (0 : α), (-(1 : α))⟩, f⟩)
             else
-              (⟨⟨(0 : α), (1 : α), (0 : α)⟩, t⟩, ⟨⟨t502, t503, t503⟩, r⟩, ⟨⟨t500, t501, t500⟩, t494⟩, ⟨⟨t498, t499, t499⟩, t496⟩, ⟨⟨t458, t458, t459⟩, t44⟩, ⟨⟨t83, t83, t84⟩, f⟩)
+              (⟨⟨(0 : α), (1 : α), (0 : α)⟩, t⟩, ⟨⟨t510, t511, t511⟩, r⟩, ⟨⟨t508, t509, t508⟩, t502⟩, ⟨⟨t506, t507, t507⟩, t504⟩, ⟨⟨t466, t466, t467⟩, t44⟩, ⟨⟨t83, t83, t84⟩, f⟩)
   else
-    if t493 = (0 : α) then
-      if t495 = (0 : α) then
-        if t497 = (0 : α) then
-          if t457 = (0 : α) then
+    if t501 = (0 : α) then
+      if t503 = (0 : α) then
+        if t505 = (0 : α) then
+          if t465 = (0 : α) then
             if t53 = (0 : α) then
-              (⟨⟨t504, t505, t504⟩, t⟩, ⟨⟨(1 : α), (0 : α), (0 : α)⟩, r⟩, ⟨⟨(0 : α), (-(1 : α)), (0 : α)⟩, t494⟩, ⟨⟨(-(1 : α)), (0 : α), (0 : α)⟩, t496⟩, ⟨⟨(0 : α), (0 : α), (1 : α)⟩, t44⟩, ⟨⟨(0 : α), (0 : α), (-(1 : α))⟩, f⟩)
+              (⟨⟨t512, t513, t512⟩, t⟩, ⟨⟨(1 : α), (0 : α), (0 : α)⟩, r⟩, ⟨⟨(0 : α), (-(1 : α)), (0 : α)⟩, t502⟩, ⟨⟨(-(1 : α)), (0 : α), (0 : α)⟩, t504⟩, ⟨⟨(0 : α), (0 : α), (1 : α)⟩, t44⟩, ⟨⟨(0 : α), (0 : α), (-(1 : α))⟩, f⟩)
             else
-              (⟨⟨t504, t505, t504⟩, t⟩, ⟨⟨(1 : α), (0 : α), (0 : α)⟩, r⟩, ⟨⟨(0 : α), (-(1 : α)), (0 : α)⟩, t494⟩, ⟨⟨(-(1 : α)), (0 : α), (0 : α)⟩, t496⟩, ⟨⟨(0 : α), (0 : α), (1 : α)⟩, t44⟩, ⟨⟨t83, t83, t84⟩, f⟩)
+              (⟨⟨t512, t513, t512⟩, t⟩, ⟨⟨(1 : α), (0 : α), (0 : α)⟩, r⟩, ⟨⟨(0 : α), (-(1 : α)), (0 : α)⟩, t502⟩, ⟨⟨(-(1 : α)), (0 : α), (0 : α)⟩, t504⟩, ⟨⟨(0 : α), (0 : α), (1 : α)⟩, t44⟩, ⟨⟨t83, t83, t84⟩, f⟩)
           else
             if t53 = (0 : α) then
-              (⟨⟨t504, t505, t504⟩, t⟩, ⟨⟨(1 : α), (0 : α), (0 : α)⟩, r⟩, ⟨⟨(0 : α), (-(1 : α)), (0 : α)⟩, t494⟩, ⟨⟨(-(1 : α)), (0 : α), (0 : α)⟩, t496⟩, ⟨⟨t458, t458, t459⟩, t44⟩, ⟨⟨(0 : α), (0 : α), (-(1 : α))⟩, f⟩)
+              (⟨⟨t512, t513, t512⟩, t⟩, ⟨⟨(1 : α), (0 : α), (0 : α)⟩, r⟩, ⟨⟨(0 : α), (-(1 : α)), (0 : α)⟩, t502⟩, ⟨⟨(-(1 : α)), (0 : α), (0 : α)⟩, t504⟩, ⟨⟨t466, t466, t467⟩, t44⟩, ⟨⟨(0 : α), (0 : α), (-(1 : α))⟩, f⟩)
             else
-              (⟨⟨t504, t505, t504⟩, t⟩, ⟨⟨(1 : α), (0 : α), (0 : α)⟩, r⟩, ⟨⟨(0 : α), (-(1 : α)), (0 : α)⟩, t494⟩, ⟨⟨(-(1 : α)), (0 : α), (0 : α)⟩, t496⟩, ⟨⟨t458, t458, t459⟩, t44⟩, ⟨⟨t83, t83, t84⟩, f⟩)
+              (⟨⟨t512, t513, t512⟩, t⟩, ⟨⟨(1 : α), (0 : α), (0 : α)⟩, r⟩, ⟨⟨(0 : α), (-(1 : α)), (0 : α)⟩, t502⟩, ⟨⟨(-(1 : α)), (0 : α), (0 : α)⟩, t504⟩, ⟨⟨t466, t466, t467⟩, t44⟩, ⟨⟨t83, t83, t84⟩, f⟩)
         else
-          if t457 = (0 : α) then
+          if t465 = (0 : α) then
             if t53 = (0 : α) then
-              (⟨⟨t504, t505, t504⟩, t⟩, ⟨⟨(1 : α), (0 : α), (0 : α)⟩, r⟩, ⟨⟨(0 : α), (-(1 : α)), (0 : α)⟩, t494⟩, ⟨⟨t498, t499, t499⟩, t496⟩, ⟨⟨(0 : α), (0 : α), (1 : α)⟩, t44⟩, ⟨⟨(0 : α), (0 : α), (-(1 : α))⟩, f⟩)
+              (⟨⟨t512, t513, t512⟩, t⟩, ⟨⟨(1 : α), (0 : α), (0 : α)⟩, r⟩, ⟨⟨(0 : α), (-(1 : α)), (0 : α)⟩, t502⟩, ⟨⟨t506, t507, t507⟩, t504⟩, ⟨⟨(0 : α), (0 : α), (1 : α)⟩, t44⟩, ⟨⟨(0 : α), (0 : α), (-(1 : α))⟩, f⟩)
             else
-              (⟨⟨t504, t505, t504⟩, t⟩, ⟨⟨(1 : α), (0 : α), (0 : α)⟩, r⟩, ⟨⟨(0 : α), (-(1 : α)), (0 : α)⟩, t494⟩, ⟨⟨t498, t499, t499⟩, t496⟩, ⟨⟨(0 : α), (0 : α), (1 : α)⟩, t44⟩, ⟨⟨t83, t83, t84⟩, f⟩)
+              (⟨⟨t512, t513, t512⟩, t⟩, ⟨⟨(1 : α), (0 : α), (0 : α)⟩, r⟩, ⟨⟨(0 : α), (-(1 : α)), (0 : α)⟩, t502⟩, ⟨⟨t506, t507, t507⟩, t504⟩, ⟨⟨(0 : α), (0 : α), (1 : α)⟩, t44⟩, ⟨⟨t83, t83, t84⟩, f⟩)
           else
             if t53 = (0 : α) then
-              (⟨⟨t504, t505, t504⟩, t⟩, ⟨⟨(1 : α), (0 : α), (0 : α)⟩, r⟩, ⟨⟨(0 : α), (-(1 : α)), (0 : α)⟩, t494⟩, ⟨⟨t498, t499, t499⟩, t496⟩, ⟨⟨t458, t458, t459⟩, t44⟩, ⟨⟨(0 : α), (0 : α), (-(1 : α))⟩, f⟩)
+              (⟨⟨t512, t513, t512⟩, t⟩, ⟨⟨(1 : α), (0 : α), (0 : α)⟩, r⟩, ⟨⟨(0 : α), (-(1 : α)), (0 : α)⟩, t502⟩, ⟨⟨t506, t507, t507⟩, t504⟩, ⟨⟨t466, t466, t467⟩, t44⟩, ⟨⟨(0 : α), (0 : α), (-(1 : α))⟩, f⟩)
             else
-              (⟨⟨t504, t505, t504⟩, t⟩, ⟨⟨(1 : α), (0 : α), (0 : α)⟩, r⟩, ⟨⟨(0 : α), (-(1 : α)), (0 : α)⟩, t494⟩, ⟨⟨t498, t499, t499⟩, t496⟩, ⟨⟨t458, t458, t459⟩, t44⟩, ⟨⟨t83, t83, t84⟩, f⟩)
+              (⟨⟨t512, t513, t512⟩, t⟩, ⟨⟨(1 : α), (0 : α), (0 : α)⟩, r⟩, ⟨⟨(0 : α), (-(1 : α)), (0 : α)⟩, t502⟩, ⟨⟨t506, t507, t507⟩, t504⟩, ⟨⟨t466, t466, t467⟩, t44⟩, ⟨⟨t83, t83, t84⟩, f⟩)
       else
-        if t497 = (0 : α) then
-          if t457 = (0 : α) then
+        if t505 = (0 : α) then
+          if t465 = (0 : α) then
             if t53 = (0 : α) then
-              (⟨⟨t504, t505, t504⟩, t⟩, ⟨⟨(1 : α), (0 : α), (0 : α)⟩, r⟩, ⟨⟨t500, t501, t500⟩, t494⟩, ⟨⟨(-(1 : α)), (0 : α), (0 : α)⟩, t496⟩, ⟨⟨(0 : α), (0 : α), (1 : α)⟩, t44⟩, ⟨⟨(0 : α), (0 : α), (-(1 : α))⟩, f⟩)
+              (⟨⟨t512, t513, t512⟩, t⟩, ⟨⟨(1 : α), (0 : α), (0 : α)⟩, r⟩, ⟨⟨t508, t509, t508⟩, t502⟩, ⟨⟨(-(1 : α)), (0 : α), (0 : α)⟩, t504⟩, ⟨⟨(0 : α), (0 : α), (1 : α)⟩, t44⟩, ⟨⟨(0 : α), (0 : α), (-(1 : α))⟩, f⟩)
             else
-              (⟨⟨t504, t505, t504⟩, t⟩, ⟨⟨(1 : α), (0 : α), (0 : α)⟩, r⟩, ⟨⟨t500, t501, t500⟩, t494⟩, ⟨⟨(-(1 : α)), (0 : α), (0 : α)⟩, t496⟩, ⟨⟨(0 : α), (0 : α), (1 : α)⟩, t44⟩, ⟨⟨t83, t83, t84⟩, f⟩)
+              (⟨⟨t512, t513, t512⟩, t⟩, ⟨⟨(1 : α), (0 : α), (0 : α)⟩, r⟩, ⟨⟨t508, t509, t508⟩, t502⟩, ⟨⟨(-(1 : α)), (0 : α), (0 : α)⟩, t504⟩, ⟨⟨(0 : α), (0 : α), (1 : α)⟩, t44⟩, ⟨⟨t83, t83, t84⟩, f⟩)
           else
             if t53 = (0 : α) then
-              (⟨⟨t504, t505, t504⟩, t⟩, ⟨⟨(1 : α), (0 : α), (0 : α)⟩, r⟩, ⟨⟨t500, t501, t500⟩, t494⟩, ⟨⟨(-(1 : α)), (0 : α), (0 : α)⟩, t496⟩, ⟨⟨t458, t458, t459⟩, t44⟩, ⟨⟨(0 : α), (0 : α), (-(1 : α))⟩, f⟩)
+              (⟨⟨t512, t513, t512⟩, t⟩, ⟨⟨(1 : α), (0 : α), (0 : α)⟩, r⟩, ⟨⟨t508, t509, t508⟩, t502⟩, ⟨⟨(-(1 : α)), (0 : α), (0 : α)⟩, t504⟩, ⟨⟨t466, t466, t467⟩, t44⟩, ⟨⟨(0 : α), (0 : α), (-(1 : α))⟩, f⟩)
             else
-              (⟨⟨t504, t505, t504⟩, t⟩, ⟨⟨(1 : α), (0 : α), (0 : α)⟩, r⟩, ⟨⟨t500, t501, t500⟩, t494⟩, ⟨⟨(-(1 : α)), (0 : α), (0 : α)⟩, t496⟩, ⟨⟨t458, t458, t459⟩, t44⟩, ⟨⟨t83, t83, t84⟩, f⟩)
+              (⟨⟨t512, t513, t512⟩, t⟩, ⟨⟨(1 : α), (0 : α), (0 : α)⟩, r⟩, ⟨⟨t508, t509, t508⟩, t502⟩, ⟨⟨(-(1 : α)), (0 : α), (0 : α)⟩, t504⟩, ⟨⟨t466, t466, t467⟩, t44⟩, ⟨⟨t83, t83, t84⟩, f⟩)
         else
-          if t457 = (0 : α) then
+          if t465 = (0 : α) then
             if t53 = (0 : α) then
-              (⟨⟨t504, t505, t504⟩, t⟩, ⟨⟨(1 : α), (0 : α), (0 : α)⟩, r⟩, ⟨⟨t500, t501, t500⟩, t494⟩, ⟨⟨t498, t499, t499⟩, t496⟩, ⟨⟨(0 : α), (0 : α), (1 : α)⟩, t44⟩, ⟨⟨(0 : α), (0 : α), (-(1 : α))⟩, f⟩)
+              (⟨⟨t512, t513, t512⟩, t⟩, ⟨⟨(1 : α), (0 : α), (0 : α)⟩, r⟩, ⟨⟨t508, t509, t508⟩, t502⟩, ⟨⟨t506, t507, t507⟩, t504⟩, ⟨⟨(0 : α), (0 : α), (1 : α)⟩, t44⟩, ⟨⟨(0 : α), (0 : α), (-(1 : α))⟩, f⟩)
             else
-              (⟨⟨t504, t505, t504⟩, t⟩, ⟨⟨(1 : α), (0 : α), (0 : α)⟩, r⟩, ⟨⟨t500, t501, t500⟩, t494⟩, ⟨⟨t498, t499, t499⟩, t496⟩, ⟨⟨(0 : α), (0 : α), (1 : α)⟩, t44⟩, ⟨⟨t83, t83, t84⟩, f⟩)
+              (⟨⟨t512, t513, t512⟩, t⟩, ⟨⟨(1 : α), (0 : α), (0 : α)⟩, r⟩, ⟨⟨t508, t509, t508⟩, t502⟩, ⟨⟨t506, t507, t507⟩, t504⟩, ⟨⟨(0 : α), (0 : α), (1 : α)⟩, t44⟩, ⟨⟨t83, t83, t84⟩, f⟩)
           else
             if t53 = (0 : α) then
-              (⟨⟨t504, t505, t504⟩, t⟩, ⟨⟨(1 : α), (0 : α), (0 : α)⟩, r⟩, ⟨⟨t500, t501, t500⟩, t494⟩, ⟨⟨t498, t499, t499⟩, t496⟩, ⟨⟨t458, t458, t459⟩, t44⟩, ⟨⟨(0 : α), (0 : α), (-(1 : α))⟩, f⟩)
+              (⟨⟨t512, t513, t512⟩, t⟩, ⟨⟨(1 : α), (0 : α), (0 : α)⟩, r⟩, ⟨⟨t508, t509, t508⟩, t502⟩, ⟨⟨t506, t507, t507⟩, t504⟩, ⟨⟨t466, t466, t467⟩, t44⟩, ⟨⟨(0 : α), (0 : α), (-(1 : α))⟩, f⟩)
             else
-              (⟨⟨t504, t505, t504⟩, t⟩, ⟨⟨(1 : α), (0 : α), (0 : α)⟩, r⟩, ⟨⟨t500, t501, t500⟩, t494⟩, ⟨⟨t498, t499, t499⟩, t496⟩, ⟨⟨t458, t458, t459⟩, t44⟩, ⟨⟨t83, t83, t84⟩, f⟩)
+              (⟨⟨t512, t513, t512⟩, t⟩, ⟨⟨(1 : α), (0 : α), (0 : α)⟩, r⟩, ⟨⟨t508, t509, t508⟩, t502⟩, ⟨⟨t506, t507, t507⟩, t504⟩, ⟨⟨t466, t466, t467⟩, t44⟩, ⟨⟨t83, t83, t84⟩, f⟩)
     else
-      if t495 = (0 : α) then
-        if t497 = (0 : α) then
-          if t457 = (0 : α) then
+      if t503 = (0 : α) then
+        if t505 = (0 : α) then
+          if t465 = (0 : α) then
             if t53 = (0 : α) then
-              (⟨⟨t504, t505, t504⟩, t⟩, ⟨⟨t502, t503, t503⟩, r⟩, ⟨⟨(0 : α), (-(1 : α)), (0 : α)⟩, t494⟩, ⟨⟨(-(1 : α)), (0 : α), (0 : α)⟩, t496⟩, ⟨⟨(0 : α), (0 : α), (1 : α)⟩, t44⟩, ⟨⟨(0 : α), (0 : α), (-(1 : α))⟩, f⟩)
+              (⟨⟨t512, t513, t512⟩, t⟩, ⟨⟨t510, t511, t511⟩, r⟩, ⟨⟨(0 : α), (-(1 : α)), (0 : α)⟩, t502⟩, ⟨⟨(-(1 : α)), (0 : α), (0 : α)⟩, t504⟩, ⟨⟨(0 : α), (0 : α), (1 : α)⟩, t44⟩, ⟨⟨(0 : α), (0 : α), (-(1 : α))⟩, f⟩)
             else
-              (⟨⟨t504, t505, t504⟩, t⟩, ⟨⟨t502, t503, t503⟩, r⟩, ⟨⟨(0 : α), (-(1 : α)), (0 : α)⟩, t494⟩, ⟨⟨(-(1 : α)), (0 : α), (0 : α)⟩, t496⟩, ⟨⟨(0 : α), (0 : α), (1 : α)⟩, t44⟩, ⟨⟨t83, t83, t84⟩, f⟩)
+              (⟨⟨t512, t513, t512⟩, t⟩, ⟨⟨t510, t511, t511⟩, r⟩, ⟨⟨(0 : α), (-(1 : α)), (0 : α)⟩, t502⟩, ⟨⟨(-(1 : α)), (0 : α), (0 : α)⟩, t504⟩, ⟨⟨(0 : α), (0 : α), (1 : α)⟩, t44⟩, ⟨⟨t83, t83, t84⟩, f⟩)
           else
             if t53 = (0 : α) then
-              (⟨⟨t504, t505, t504⟩, t⟩, ⟨⟨t502, t503, t503⟩, r⟩, ⟨⟨(0 : α), (-(1 : α)), (0 : α)⟩, t494⟩, ⟨⟨(-(1 : α)), (0 : α), (0 : α)⟩, t496⟩, ⟨⟨t458, t458, t459⟩, t44⟩, ⟨⟨(0 : α), (0 : α), (-(1 : α))⟩, f⟩)
+              (⟨⟨t512, t513, t512⟩, t⟩, ⟨⟨t510, t511, t511⟩, r⟩, ⟨⟨(0 : α), (-(1 : α)), (0 : α)⟩, t502⟩, ⟨⟨(-(1 : α)), (0 : α), (0 : α)⟩, t504⟩, ⟨⟨t466, t466, t467⟩, t44⟩, ⟨⟨(0 : α), (0 : α), (-(1 : α))⟩, f⟩)
             else
-              (⟨⟨t504, t505, t504⟩, t⟩, ⟨⟨t502, t503, t503⟩, r⟩, ⟨⟨(0 : α), (-(1 : α)), (0 : α)⟩, t494⟩, ⟨⟨(-(1 : α)), (0 : α), (0 : α)⟩, t496⟩, ⟨⟨t458, t458, t459⟩, t44⟩, ⟨⟨t83, t83, t84⟩, f⟩)
+              (⟨⟨t512, t513, t512⟩, t⟩, ⟨⟨t510, t511, t511⟩, r⟩, ⟨⟨(0 : α), (-(1 : α)), (0 : α)⟩, t502⟩, ⟨⟨(-(1 : α)), (0 : α), (0 : α)⟩, t504⟩, ⟨⟨t466, t466, t467⟩, t44⟩, ⟨⟨t83, t83, t84⟩, f⟩)
         else
-          if t457 = (0 : α) then
+          if t465 = (0 : α) then
             if t53 = (0 : α) then
-              (⟨⟨t504, t505, t504⟩, t⟩, ⟨⟨t502, t503, t503⟩, r⟩, ⟨⟨(0 : α), (-(1 : α)), (0 : α)⟩, t494⟩, ⟨⟨t498, t499, t499⟩, t496⟩, ⟨⟨(0 : α), (0 : α), (1 : α)⟩, t44⟩, ⟨⟨(0 : α), (0 : α), (-(1 : α))⟩, f⟩)
+              (⟨⟨t512, t513, t512⟩, t⟩, ⟨⟨t510, t511, t511⟩, r⟩, ⟨⟨(0 : α), (-(1 : α)), (0 : α)⟩, t502⟩, ⟨⟨t506, t507, t507⟩, t504⟩, ⟨⟨(0 : α), (0 : α), (1 : α)⟩, t44⟩, ⟨⟨(0 : α), (0 : α), (-(1 : α))⟩, f⟩)
             else
-              (⟨⟨t504, t505, t504⟩, t⟩, ⟨⟨t502, t503, t503⟩, r⟩, ⟨⟨(0 : α), (-(1 : α)), (0 : α)⟩, t494⟩, ⟨⟨t498, t499, t499⟩, t496⟩, ⟨⟨(0 : α), (0 : α), (1 : α)⟩, t44⟩, ⟨⟨t83, t83, t84⟩, f⟩)
+              (⟨⟨t512, t513, t512⟩, t⟩, ⟨⟨t510, t511, t511⟩, r⟩, ⟨⟨(0 : α), (-(1 : α)), (0 : α)⟩, t502⟩, ⟨⟨t506, t507, t507⟩, t504⟩, ⟨⟨(0 : α), (0 : α), (1 : α)⟩, t44⟩, ⟨⟨t83, t83, t84⟩, f⟩)
           else
             if t53 = (0 : α) then
-              (⟨⟨t504, t505, t504⟩, t⟩, ⟨⟨t502, t503, t503⟩, r⟩, ⟨⟨(0 : α), (-(1 : α)), (0 : α)⟩, t494⟩, ⟨⟨t498, t499, t499⟩, t496⟩, ⟨⟨t458, t458, t459⟩, t44⟩, ⟨⟨(0 : α), (0 : α), (-(1 : α))⟩, f⟩)
+              (⟨⟨t512, t513, t512⟩, t⟩, ⟨⟨t510, t511, t511⟩, r⟩, ⟨⟨(0 : α), (-(1 : α)), (0 : α)⟩, t502⟩, ⟨⟨t506, t507, t507⟩, t504⟩, ⟨⟨t466, t466, t467⟩, t44⟩, ⟨⟨(0 : α), (0 : α), (-(1 : α))⟩, f⟩)
             else
-              (⟨⟨t504, t505, t504⟩, t⟩, ⟨⟨t502, t503, t503⟩, r⟩, ⟨⟨(0 : α), (-(1 : α)), (0 : α)⟩, t494⟩, ⟨⟨t498, t499, t499⟩, t496⟩, ⟨⟨t458, t458, t459⟩, t44⟩, ⟨⟨t83, t83, t84⟩, f⟩)
+              (⟨⟨t512, t513, t512⟩, t⟩, ⟨⟨t510, t511, t511⟩, r⟩, ⟨⟨(0 : α), (-(1 : α)), (0 : α)⟩, t502⟩, ⟨⟨t506, t507, t507⟩, t504⟩, ⟨⟨t466, t466, t467⟩, t44⟩, ⟨⟨t83, t83, t84⟩, f⟩)
       else
-        if t497 = (0 : α) then
-          if t457 = (0 : α) then
+        if t505 = (0 : α) then
+          if t465 = (0 : α) then
             if t53 = (0 : α) then
-              (⟨⟨t504, t505, t504⟩, t⟩, ⟨⟨t502, t503, t503⟩, r⟩, ⟨⟨t500, t501, t500⟩, t494⟩, ⟨⟨(-(1 : α)), (0 : α), (0 : α)⟩, t496⟩, ⟨⟨(0 : α), (0 : α), (1 : α)⟩, t44⟩, ⟨⟨(0 : α), (0 : α), (-(1 : α))⟩, f⟩)
+              (⟨⟨t512, t513, t512⟩, t⟩, ⟨⟨t510, t511, t511⟩, r⟩, ⟨⟨t508, t509, t508⟩, t502⟩, ⟨⟨(-(1 : α)), (0 : α), (0 : α)⟩, t504⟩, ⟨⟨(0 : α), (0 : α), (1 : α)⟩, t44⟩, ⟨⟨(0 : α), (0 : α), (-(1 : α))⟩, f⟩)
             else
-              (⟨⟨t504, t505, t504⟩, t⟩, ⟨⟨t502, t503, t503⟩, r⟩, ⟨⟨t500, t501, t500⟩, t494⟩, ⟨⟨(-(1 : α)), (0 : α), (0 : α)⟩, t496⟩, ⟨⟨(0 : α), (0 : α), (1 : α)⟩, t44⟩, ⟨⟨t83, t83, t84⟩, f⟩)
+              (⟨⟨t512, t513, t512⟩, t⟩, ⟨⟨t510, t511, t511⟩, r⟩, ⟨⟨t508, t509, t508⟩, t502⟩, ⟨⟨(-(1 : α)), (0 : α), (0 : α)⟩, t504⟩, ⟨⟨(0 : α), (0 : α), (1 : α)⟩, t44⟩, ⟨⟨t83, t83, t84⟩, f⟩)
           else
             if t53 = (0 : α) then
-              (⟨⟨t504, t505, t504⟩, t⟩, ⟨⟨t502, t503, t503⟩, r⟩, ⟨⟨t500, t501, t500⟩, t494⟩, ⟨⟨(-(1 : α)), (0 : α), (0 : α)⟩, t496⟩, ⟨⟨t458, t458, t459⟩, t44⟩, ⟨⟨(0 : α), (0 : α), (-(1 : α))⟩, f⟩)
+              (⟨⟨t512, t513, t512⟩, t⟩, ⟨⟨t510, t511, t511⟩, r⟩, ⟨⟨t508, t509, t508⟩, t502⟩, ⟨⟨(-(1 : α)), (0 : α), (0 : α)⟩, t504⟩, ⟨⟨t466, t466, t467⟩, t44⟩, ⟨⟨(0 : α), (0 : α), (-(1 : α))⟩, f⟩)
             else
-              (⟨⟨t504, t505, t504⟩, t⟩, ⟨⟨t502, t503, t503⟩, r⟩, ⟨⟨t500, t501, t500⟩, t494⟩, ⟨⟨(-(1 : α)), (0 : α), (0 : α)⟩, t496⟩, ⟨⟨t458, t458, t459⟩, t44⟩, ⟨⟨t83, t83, t84⟩, f⟩)
+              (⟨⟨t512, t513, t512⟩, t⟩, ⟨⟨t510, t511, t511⟩, r⟩, ⟨⟨t508, t509, t508⟩, t502⟩, ⟨⟨(-(1 : α)), (0 : α), (0 : α)⟩, t504⟩, ⟨⟨t466, t466, t467⟩, t44⟩, ⟨⟨t83, t83, t84⟩, f⟩)
         else
-          if t457 = (0 : α) then
+          if t465 = (0 : α) then
             if t53 = (0 : α) then
-              (⟨⟨t504, t505, t504⟩, t⟩, ⟨⟨t502, t503, t503⟩, r⟩, ⟨⟨t500, t501, t500⟩, t494⟩, ⟨⟨t498, t499, t499⟩, t496⟩, ⟨⟨(0 : α), (0 : α), (1 : α)⟩, t44⟩, ⟨⟨(0 : α), (0 : α), (-(1 : α))⟩, f⟩)
+              (⟨⟨t512, t513, t512⟩, t⟩, ⟨⟨t510, t511, t511⟩, r⟩, ⟨⟨t508, t509, t508⟩, t502⟩, ⟨⟨t506, t507, t507⟩, t504⟩, ⟨⟨(0 : α), (0 : α), (1 : α)⟩, t44⟩, ⟨⟨(0 : α), (0 : α), (-(1 : α))⟩, f⟩)
             else
-              (⟨⟨t504, t505, t504⟩, t⟩, ⟨⟨t502, t503, t503⟩, r⟩, ⟨⟨t500, t501, t500⟩, t494⟩, ⟨⟨t498, t499, t499⟩, t496⟩, ⟨⟨(0 : α), (0 : α), (1 : α)⟩, t44⟩, ⟨⟨t83, t83, t84⟩, f⟩)
+              (⟨⟨t512, t513, t512⟩, t⟩, ⟨⟨t510, t511, t511⟩, r⟩, ⟨⟨t508, t509, t508⟩, t502⟩, ⟨⟨t506, t507, t507⟩, t504⟩, ⟨⟨(0 : α), (0 : α), (1 : α)⟩, t44⟩, ⟨⟨t83, t83, t84⟩, f⟩)
           else
             if t53 = (0 : α) then
-              (⟨⟨t504, t505, t504⟩, t⟩, ⟨⟨t502, t503, t503⟩, r⟩, ⟨⟨t500, t501, t500⟩, t494⟩, ⟨⟨t498, t499, t499⟩, t496⟩, ⟨⟨t458, t458, t459⟩, t44⟩, ⟨⟨(0 : α), (0 : α), (-(1 : α))⟩, f⟩)
+              (⟨⟨t512, t513, t512⟩, t⟩, ⟨⟨t510, t511, t511⟩, r⟩, ⟨⟨t508, t509, t508⟩, t502⟩, ⟨⟨t506, t507, t507⟩, t504⟩, ⟨⟨t466, t466, t467⟩, t44⟩, ⟨⟨(0 : α), (0 : α), (-(1 : α))⟩, f⟩)
             else
-              (⟨⟨t504, t505, t504⟩, t⟩, ⟨⟨t502, t503, t503⟩, r⟩, ⟨⟨t500, t501, t500⟩, t494⟩, ⟨⟨t498, t499, t499⟩, t496⟩, ⟨⟨t458, t458, t459⟩, t44⟩, ⟨⟨t83, t83, t84⟩, f⟩)
+              (⟨⟨t512, t513, t512⟩, t⟩, ⟨⟨t510, t511, t511⟩, r⟩, ⟨⟨t508, t509, t508⟩, t502⟩, ⟨⟨t506, t507, t507⟩, t504⟩, ⟨⟨t466, t466, t467⟩, t44⟩, ⟨⟨t83, t83, t84⟩, f⟩)
 
 end ImathVerif.Gen
